@@ -3,33 +3,35 @@
 import ast
 
 from ..rulekit import *
-from ..cfg import CFG
-from ..norm import Normalizer, Poly
 from ..exc import EscapeAnalysis
+from ._kit_c09 import Walker, K, none_test, const_test, origin
 
 R = Rules(
     "C09",
     explanation=(
-        "Structural clauses of the server-side response path decided on the syntax trees of pipe.py, "
-        "protocol.py, resource.py, interfaces.py, error.py, numbers/codes.py and tokenmanager.py: in "
-        "error_to_message every path taken for an exception event adds exactly one final response and "
-        "deregisters, the renderable arm is wrapped in a handler for Exception whose path sends a bare "
-        "5.00, a None rendering falls back as well, and every Message built there is Message(code=5.00) "
-        "with no other argument; run_driving_pipe turns every Exception of the render coroutine into a "
-        "terminal event; a context without site answers 4.04 once; Resource.render maps non-request codes "
-        "and missing handlers to 4.05 classes, fills the default code table {GET, FETCH: 2.05, DELETE: 2.02, "
-        "else 2.04} exactly when the handler left the code unset and copies no_response when unset; every "
-        "call of Site._find_child_and_pathstripped_message handles KeyError by 4.04 or the documented "
-        "fallback and the escape sets of that function and of _expand_upa are {KeyError} and {BadOption}; "
-        "interfaces.Resource._render_to_pipe adds one final response per normal path; the token manager's "
-        "event handler stamps token and response address before sending and stays registered exactly "
-        "while events are not final; Pipe discards events after its end; ConstructionRenderableError "
-        "renders (self.code, self.message) and every subclass binds the code its name denotes in the RFC "
-        "registries embedded here.  Paper step: with these premises each request's pipe sees exactly one "
-        "event with is_last=True on every outcome of the handler.  Run-time isolation between tasks and "
-        "the No-Response / multicast suppression (C10) are not decided."
+        "Clauses of the server-side response path decided on the syntax trees of pipe.py, protocol.py, resource.py, "
+        "interfaces.py, error.py, numbers/codes.py, tokenmanager.py and messagemanager.py.  The functions on the path are "
+        "walked path by path (rules/_kit_c09.py): every path yields its ordered events (calls, stores, raises) and the "
+        "decisions taken, with every local resolved to the value it has on that path, helper functions that are not part of "
+        "the confirmed tree followed into, lambdas / nested defs / functools.partial applied, and exceptions routed to the "
+        "handlers the class hierarchy selects; the clauses are statements about these paths, not about the shape of the "
+        "code.  In error_to_message every path taken for an exception event adds exactly one final response and "
+        "deregisters, a failing or None rendering ends in a bare 5.00 (the renderer is covered by a handler for Exception), "
+        "and every Message built there is Message(code=5.00) with no other argument and no later store; run_driving_pipe "
+        "turns every Exception of the render coroutine into a terminal event; a context without site answers 4.04 once; "
+        "Resource.render maps non-request codes and missing handlers to 4.05 classes, fills the default code table {GET, "
+        "FETCH: 2.05, DELETE: 2.02, else 2.04} exactly when the handler left the code unset (evaluated per request method) and "
+        "copies no_response when unset; every path on which Site._find_child_and_pathstripped_message raises KeyError ends in "
+        "a 4.04 error or the documented fallback, and the escape sets of that function and of _expand_upa are {KeyError} and "
+        "{BadOption}; interfaces.Resource._render_to_pipe adds one final response per normal path, the outcome of self.render; "
+        "the token manager's event handler stamps token and response address before sending and stays registered exactly "
+        "while events are not final; Pipe discards events after its end, removes declining handlers and ends without "
+        "interest; ConstructionRenderableError renders (self.code, self.message) and every subclass binds the code its name "
+        "denotes in the RFC registries embedded here; the No-Response condition of send_message has the truth table of bit "
+        "(class-1).  Paper step: with these premises each request's pipe sees exactly one event with is_last=True on every "
+        "outcome of the handler.  Run-time isolation between tasks and the multicast suppression (C10) are not decided."
     ),
-    rule_text="must-pass / dominance rules on per-function CFGs, reaching definitions, handler breadth via the class hierarchy, escape sets, finite-domain evaluation of the method dispatch, constant evaluation of code tables against RFC 7252/7959/8132/8516/8768",
+    rule_text="path-sensitive symbolic walk of per-function CFGs (events and decisions per path, values resolved through def-use, helpers followed interprocedurally, explicit and implicit exception flow through the class hierarchy), truth-table equivalence of boolean values under the path decisions, finite-domain evaluation of the method dispatch and of the No-Response mask, escape sets, constant evaluation of code tables against RFC 7252/7959/8132/8516/8768",
 )
 
 # ---------------------------------------------------------------------------
@@ -64,16 +66,6 @@ def _camel(name):
 # local helpers (kept in this module on purpose: rule modules are independent)
 
 
-def _rn(cfg, astnode):
-    return [i for i in cfg.locate(astnode) if cfg.is_reachable(i)]
-
-
-def _n1(ctx, cfg, astnode, what):
-    ids = _rn(cfg, astnode)
-    ctx.need(bool(ids), "%s is not reachable in the CFG" % what)
-    return ids[0]
-
-
 def _kw(call, name, pos=None):
     for k in call.keywords:
         if k.arg == name:
@@ -82,71 +74,6 @@ def _kw(call, name, pos=None):
         return call.args[pos]
     return None
 
-
-def _path_in_target(t, name):
-    if isinstance(t, ast.Name):
-        return () if t.id == name else None
-    if isinstance(t, (ast.Tuple, ast.List)):
-        for i, e in enumerate(t.elts):
-            if isinstance(e, ast.Starred):
-                continue
-            p = _path_in_target(e, name)
-            if p is not None:
-                return (i,) + p
-    return None
-
-
-def _bound(w, name):
-    if isinstance(w, ast.Assign):
-        for t in w.targets:
-            p = _path_in_target(t, name)
-            if p is not None:
-                return w.value, p
-    if isinstance(w, ast.AnnAssign) and isinstance(w.target, ast.Name) and w.target.id == name:
-        return w.value, ()
-    return None, None
-
-
-def _write_nodes(cfg, fnode, name):
-    out = []
-    for w in writes_to_name(fnode, name):
-        for nid in cfg.locate(w):
-            if cfg.is_reachable(nid):
-                out.append((nid, w))
-    return out
-
-
-def _reaching(cfg, fnode, name, at):
-    ws = _write_nodes(cfg, fnode, name)
-    ids = {nid for nid, _ in ws}
-    out = []
-    for nid, w in ws:
-        if at in cfg.reach({nid}, avoid=ids - {nid, at}):
-            out.append((nid, w))
-    entry_live = at in cfg.reach({cfg.entry}, avoid=ids - {at}, include_src=True)
-    return out, entry_live
-
-
-def _value_at(cfg, fnode, e, at, depth=4):
-    """Follow a local name to (value expression, index path) of its unique
-    reaching binding: the name denotes value[path...]; literal tuples on the
-    right-hand side of a parallel assignment are indexed away."""
-    while depth and isinstance(e, ast.Name):
-        ws, entry_live = _reaching(cfg, fnode, e.id, at)
-        if len(ws) != 1 or entry_live:
-            break
-        v, p = _bound(ws[0][1], e.id)
-        if v is None:
-            break
-        while p and isinstance(v, (ast.Tuple, ast.List)) and len(v.elts) > p[0] and not any(isinstance(x, ast.Starred) for x in v.elts):
-            v, p = v.elts[p[0]], p[1:]
-        at = ws[0][0]
-        depth -= 1
-        if p:
-            v2, p2 = _value_at(cfg, fnode, v, at, depth)
-            return v2, p2 + p
-        e = v
-    return e, ()
 
 def _assigned_to(n, pred):
     """values a statement assigns to the targets satisfying pred (parallel
@@ -170,22 +97,6 @@ def _assigned_to(n, pred):
     return out
 
 
-def _sources(cfg, fnode, e, at):
-    """value expressions (followed through single-binding locals) that `e` can denote at node `at`;
-    None stands for a binding the rule cannot see (parameter, unbound)"""
-    if not isinstance(e, ast.Name):
-        return [e]
-    ws, live = _reaching(cfg, fnode, e.id, at)
-    out = [None] if live else []
-    for nid, w in ws:
-        v, p = _bound(w, e.id)
-        if v is None or p:
-            out.append(None)
-        else:
-            out.append(_value_at(cfg, fnode, v, nid)[0])
-    return out
-
-
 def _closure_ref(fnode, used, outer):
     a = fnode.args
     allargs = a.posonlyargs + a.args
@@ -196,32 +107,6 @@ def _closure_ref(fnode, used, outer):
     if isinstance(fnode, ast.Lambda):
         return used == outer
     return used == outer and not writes_to_name(fnode, used)
-
-
-def _cls_of(ctx, fi, e):
-    c = chain(e)
-    return ctx.prog.resolve_in_module(fi.module, c) if c else None
-
-
-def _witness(cfg, starts, through, to, skip=()):
-    r = cfg.reach(set(starts), avoid=set(through), skip_labels=skip, include_src=True)
-    for n in sorted(r):
-        if any(d == to and lab not in skip for d, lab in cfg.succ[n]) and cfg.nodes[n].ast is not None:
-            return cfg.nodes[n].ast
-    return None
-
-
-def _none_nodes(cfg, subject_ok, isnone):
-    """pseudo-nodes on which `<subject> is None` has truth value `isnone`"""
-    out = set()
-    for n in cfg.nodes:
-        e = n.ast
-        if n.kind in ("T", "F") and cfg.is_reachable(n.id) and isinstance(e, ast.Compare) and len(e.ops) == 1 and isinstance(e.ops[0], (ast.Is, ast.IsNot, ast.Eq, ast.NotEq)) \
-                and isinstance(e.comparators[0], ast.Constant) and e.comparators[0].value is None and subject_ok(e.left, n.id):
-            val = (n.kind == "T") == isinstance(e.ops[0], (ast.Is, ast.Eq))
-            if val == isnone:
-                out.add(n.id)
-    return out
 
 
 def _code_value(prog, module, e):
@@ -264,37 +149,6 @@ def _class_code(prog, clsqn):
     return cv[1] if cv else None
 
 
-class _Add:
-    def __init__(self, call, nid):
-        self.call = call
-        self.nid = nid
-        self.resp = _kw(call, "response", 0)
-        self.last = _kw(call, "is_last", 1)
-        if self.last is None:
-            self.kind = "nonfinal"
-        elif isinstance(self.last, ast.Constant):
-            self.kind = "final" if self.last.value else "nonfinal"
-        else:
-            self.kind = "var"
-
-
-def _adds(cfg, root, recv):
-    out = []
-    for c, _ in find("%s.add_response($*a, $**k)" % recv, root):
-        for nid in _rn(cfg, c):
-            out.append(_Add(c, nid))
-    return out
-
-
-def _is_bare_500(prog, fi, e):
-    if not (isinstance(e, ast.Call) and _cls_of_mod(prog, fi.module, e.func) == "aiocoap.message.Message"):
-        return False
-    if e.args or len(e.keywords) != 1 or e.keywords[0].arg != "code":
-        return False
-    cv = _code_value(prog, fi.module, e.keywords[0].value)
-    return cv is not None and cv[1] == _num(RESPONSE_CODES["INTERNAL_SERVER_ERROR"])
-
-
 def _cls_of_mod(prog, module, e):
     c = chain(e)
     return prog.resolve_in_module(module, c) if c else None
@@ -325,6 +179,122 @@ def _enclosing_try(cfg, node, fnode):
 
 
 # ---------------------------------------------------------------------------
+# trace helpers (over _kit_c09.Walker outcomes)
+
+
+class _Obs:
+    """one obligation per (text, construct): the outcomes of a function repeat the same construct on many paths"""
+
+    def __init__(self, ctx):
+        self.ctx = ctx
+        self.items = {}
+
+    def add(self, desc, ok, fi, node, detail=None, construct=None):
+        k = (desc, id(node), construct)
+        it = self.items.get(k)
+        if it is None:
+            self.items[k] = [desc, bool(ok), fi, node, None if ok else detail, construct]
+        elif not ok and it[1]:
+            it[1], it[4] = False, detail
+        return ok
+
+    def flush(self):
+        for desc, ok, fi, node, detail, construct in self.items.values():
+            self.ctx.ob(desc, ok, fi, node, detail=detail, construct=construct)
+        self.items = {}
+
+
+def _method_calls(o, attr, recv_ok, partial=None):
+    """(index, event) of calls `<recv>.attr(...)` on an outcome with recv_ok(resolved receiver)"""
+    return o.calls(lambda e: isinstance(e.func, ast.Attribute) and e.func.attr == attr and recv_ok(e.func.value), partial=partial)
+
+
+def _last_arg(e):
+    """is_last argument of an add_response event (absent: the default False)"""
+    v = e.arg("is_last", 1)
+    return v if v is not None else ast.Constant(value=False)
+
+
+def _bare_500(prog, W, v):
+    """v is a Message built on the spot as Message(code=INTERNAL_SERVER_ERROR) and nothing else"""
+    if not (isinstance(v, ast.Call) and W.cls_of(v.func) == "aiocoap.message.Message"):
+        return False
+    if v.args or len(v.keywords) != 1 or v.keywords[0].arg != "code":
+        return False
+    kv = v.keywords[0].value
+    fi = getattr(kv, "_fi", None)
+    cv = _code_value(prog, fi.module, kv) if fi is not None else None
+    return cv is not None and cv[1] == _num(RESPONSE_CODES["INTERNAL_SERVER_ERROR"])
+
+
+def _message_fields(W, o, v):
+    """{field: resolved value} of a Message that is built on the outcome's path and denoted by v: the constructor's
+    keywords plus every later `<v>.<field> = x` / `<v>.opt.<name> = x` store (the last one wins) -- a constructor keyword
+    and an attribute assignment before the message is handed on are the same fact.  None when v is not a
+    Message(...) constructed on this path or takes positional / ** arguments."""
+    if not (isinstance(v, ast.Call) and W.cls_of(v.func) == "aiocoap.message.Message") or v.args or any(k.arg is None for k in v.keywords):
+        return None
+    fields = {k.arg: k.value for k in v.keywords}
+    kv = K(v)
+    for _, s in o.stores():
+        path = []
+        t = s.target
+        while isinstance(t, ast.Attribute):
+            path.append(t.attr)
+            t = t.value
+        if K(t) == kv and path:
+            name = ".".join(reversed(path))
+            if s.kind == "del":
+                fields.pop(name, None)
+            else:
+                fields[name] = s.value
+        elif isinstance(s.target, ast.Subscript):
+            b_ = s.target
+            while isinstance(b_, (ast.Attribute, ast.Subscript)):
+                b_ = b_.value
+            if K(b_) == kv:
+                return None
+    return fields
+
+
+def _utf8_of(v, what):
+    """v (resolved) is the UTF-8 encoding of the attribute chain `what`: x.encode(), x.encode("utf8"), x.encode(encoding="utf-8"),
+    bytes(x, "utf8"), str.encode(x, "utf-8") with strict error handling"""
+    if not isinstance(v, ast.Call) or any(isinstance(a_, ast.Starred) for a_ in v.args) or any(k.arg is None for k in v.keywords):
+        return False
+    args, kw = list(v.args), {k.arg: k.value for k in v.keywords}
+    if isinstance(v.func, ast.Attribute) and v.func.attr == "encode" and chain(v.func.value) == what:
+        pass
+    elif chain(v.func) == "str.encode" and args and chain(args[0]) == what:
+        args = args[1:]
+    elif chain(v.func) == "bytes" and args and chain(args[0]) == what and (len(args) > 1 or "encoding" in kw):
+        args = args[1:]
+    else:
+        return False
+    enc = args[0] if args else kw.get("encoding")
+    err = args[1] if len(args) > 1 else kw.get("errors")
+    if len(args) > 2 or set(kw) - {"encoding", "errors"}:
+        return False
+    if err is not None and not (isinstance(err, ast.Constant) and err.value == "strict"):
+        return False
+    if enc is None:
+        return True
+    return isinstance(enc, ast.Constant) and isinstance(enc.value, str) and enc.value.lower().replace("-", "").replace("_", "") == "utf8"
+
+
+def _isinstance_decisions(o, W, subject_ok):
+    """[(truth, [class qualified names])] of the decisions `isinstance(<subject>, C)` on the outcome"""
+    out = []
+    for d in o.decisions:
+        m = match("isinstance($o, $c)", d.expr)
+        if m is None or not subject_ok(m["o"]):
+            continue
+        cs = m["c"].elts if isinstance(m["c"], ast.Tuple) else [m["c"]]
+        out.append((d.val, [W.cls_of(c) for c in cs]))
+    return out
+
+
+# ---------------------------------------------------------------------------
 # C09.a / C09.b  error_to_message.on_event
 
 
@@ -333,6 +303,8 @@ class _E2M:
 
 
 def _e2m(ctx):
+    """walk error_to_message.on_event once: every outcome (path, with helper calls followed) classified by the truth of
+    `event.message is None`"""
     prog = ctx.prog
     Q = _E2M()
     outer = Q.outer = prog.func("pipe.error_to_message")
@@ -342,156 +314,167 @@ def _e2m(ctx):
     ctx.need(len(op) == 2 and len(ep) == 1, "error_to_message / on_event signature changed")
     Q.old, Q.ev = op[0], ep[0]
     ctx.need(not writes_to_name(outer.node, Q.old) and _closure_ref(fi.node, Q.old, Q.old) and not writes_to_name(fi.node, Q.ev), "old pipe or event rebound")
-    cfg = Q.cfg = cfg_of(fi)
-    subj = lambda e, at: chain(e) == Q.ev + ".message"
-    Q.exc_arm = _none_nodes(cfg, subj, True)
-    Q.msg_arm = _none_nodes(cfg, subj, False)
-    ctx.need(Q.exc_arm and Q.msg_arm, "on_event does not branch on `event.message is None`")
-    Q.adds = _adds(cfg, fi.node, Q.old)
-    ctx.floor("add_response sites in on_event", len(Q.adds), 1)
-    Q.exc_reach = cfg.reach(Q.exc_arm, avoid=Q.msg_arm, skip_labels=(), include_src=True)
-    Q.msg_reach = cfg.reach(Q.msg_arm, avoid=Q.exc_arm, skip_labels=(), include_src=True)
-    Q.adds_exc = [A for A in Q.adds if A.nid in Q.exc_reach]
-    Q.adds_msg = [A for A in Q.adds if A.nid in Q.msg_reach and A.nid not in Q.exc_reach]
-    # the exception object
-    Q.is_exc = lambda e, at: chain(_value_at(cfg, fi.node, e, at)[0]) == Q.ev + ".exception"
-    # registration of the handler on the inner pipe
+    W = Q.W = Walker(prog)
+    Q.outs = W.run(fi)
+    ctx.need(bool(Q.outs), "on_event has no path")
+    Q.is_msg = lambda v: chain(v) == Q.ev + ".message"
+    Q.is_exc = lambda v: chain(v) == Q.ev + ".exception"
+    Q.exc_outs, Q.msg_outs = [], []
+    for o in Q.outs:
+        n = o.is_none(Q.is_msg)
+        ctx.need(n is not None, "on_event has a path that does not decide `%s.message is None` (%s)" % (Q.ev, o.describe()))
+        (Q.exc_outs if n else Q.msg_outs).append(o)
+    ctx.need(Q.exc_outs and Q.msg_outs, "on_event does not branch on `event.message is None`")
+    Q.adds = lambda o, partial=None: [e for _, e in _method_calls(o, "add_response", lambda r: chain(r) == Q.old, partial)]
+    Q.renders = lambda o, partial=None: [e for _, e in _method_calls(o, "to_message", Q.is_exc, partial) if not e.args and not e.kw]
+    if W.followed:
+        ctx.note("helpers followed from on_event: %s" % ", ".join(W.followed))
     return Q
+
+
+def _anchor(o, Q):
+    """a construct of the outcome to pin a finding on: its last add_response, else its last event, else the function"""
+    a = Q.adds(o)
+    if a:
+        return a[-1].fi, a[-1].node
+    for e in reversed(o.events):
+        if e.kind in ("raise", "call") and not e.pure:
+            return e.fi, e.node
+    return Q.fi, Q.fi.node
 
 
 @R.clause("C09.a", "error_to_message.on_event: responses are forwarded with their is_last; every path taken for an exception adds exactly one final response and deregisters; to_message() is wrapped by a handler for Exception (and a None check) that leads to the bare 5.00")
 def a(ctx):
     prog = ctx.prog
     Q = _e2m(ctx)
-    fi, cfg = Q.fi, Q.cfg
-    addn = {A.nid for A in Q.adds}
-    # message arm
-    ctx.floor("forwarding sites on the message arm", len(Q.adds_msg), 1)
-    for A in Q.adds_msg:
-        ctx.ob("a response event is forwarded unchanged", chain(A.resp) == Q.ev + ".message", fi, A.call)
-        ctx.ob("a response event keeps its is_last flag", chain(A.last) == Q.ev + ".is_last", fi, A.call)
-    ctx.ob("every response event is forwarded exactly once", all(cfg.must_pass(m, {A.nid for A in Q.adds_msg}) for m in Q.msg_arm)
-           and not any(cfg.reach({A.nid}, skip_labels=("exc",)) & addn for A in Q.adds_msg), fi, Q.adds_msg[0].call)
-    want = Normalizer().dnf(ast.parse("not %s.is_last" % Q.ev, mode="eval").body)
-    for n in cfg.nodes:
-        if n.kind == "return" and n.id in Q.msg_reach and n.id not in Q.exc_reach:
-            try:
-                got = Normalizer(env=norm.local_env(fi.node)).dnf(n.ast.value) if n.ast.value is not None else None
-            except norm.NormError:
-                got = None
-            ctx.ob("the handler stays registered exactly while responses are not final", got == want, fi, n.ast)
-    # exception arm
-    ctx.floor("add_response sites on the exception arm", len(Q.adds_exc), 1)
-    for x in Q.exc_arm:
-        w = _witness(cfg, {x}, {A.nid for A in Q.adds_exc}, cfg.exit, skip=("exc",))
-        ctx.ob("every path taken for an exception event adds a response", w is None, fi, w if w is not None else Q.adds_exc[0].call)
-    for A in Q.adds_exc:
-        ctx.ob("the response to an exception event is final", A.kind == "final", fi, A.call)
-        ctx.ob("at most one response is added for an exception event", not (cfg.reach({A.nid}, skip_labels=("exc",)) & addn), fi, A.call)
-    rets = [n for n in cfg.nodes if n.kind == "return" and n.id in Q.exc_reach]
-    for n in rets:
-        v = n.ast.value
-        ctx.ob("after an exception event the handler deregisters (returns a false value)", v is None or (isinstance(v, ast.Constant) and not v.value), fi, n.ast)
-    # renderable arm
-    tms = [c for c, b in find("$x.to_message()", fi.node) if _rn(cfg, c) and Q.is_exc(b["x"], _rn(cfg, c)[0])]
-    ctx.floor("to_message() calls on the event's exception", len(tms), 1)
-    bare_writes = {}
-    for n in walk_no_nested(fi.node):
-        if isinstance(n, ast.Assign) and len(n.targets) == 1 and isinstance(n.targets[0], ast.Name) and _is_bare_500(prog, fi, n.value):
-            for i in _rn(cfg, n):
-                bare_writes.setdefault(n.targets[0].id, set()).add(i)
-    for c in tms:
-        cn = _n1(ctx, cfg, c, "to_message call")
-        inst = False
-        for e_, pol, g in cfg.guards(cn):
-            m = match("isinstance($o, $c)", e_)
-            if m is not None and pol and Q.is_exc(m["o"], g) and _cls_of(ctx, fi, m["c"]) == "aiocoap.error.RenderableError":
-                inst = True
-        ctx.ob("to_message() is called exactly for RenderableError instances", inst, fi, c)
-        tr = _enclosing_try(cfg, c, fi.node)
-        if not ctx.ob("the error renderer runs inside a try statement", tr is not None, fi, c):
+    fi, W = Q.fi, Q.W
+    obs = _Obs(ctx)
+    # ---- response events: forwarded once, unchanged, with their own is_last; registered exactly while not final
+    n_fw = 0
+    for o in Q.msg_outs:
+        adds = Q.adds(o)
+        afi, anode = _anchor(o, Q)
+        if not obs.add("every response event is forwarded exactly once", o.kind == "return" and len(adds) == 1 and not any(e.partial for e in adds), afi, anode,
+                       detail="%d add_response call(s) on the path [%s]" % (len(adds), o.describe())):
             continue
-        hs = [h for h in tr.handlers if _handler_catches(prog, fi, h, "Exception")]
-        if not ctx.ob("a failing error renderer is caught by a handler for Exception", bool(hs), fi, tr.handlers[0] if tr.handlers else c,
-                      construct="except %s" % (stmt_text(tr.handlers[0].type) if tr.handlers and tr.handlers[0].type is not None else "")):
+        e = adds[0]
+        n_fw += 1
+        obs.add("a response event is forwarded unchanged", Q.is_msg(e.arg("response", 0)), e.fi, e.node)
+        obs.add("a response event keeps its is_last flag", W.equiv(o, _last_arg(e), "%s.is_last" % Q.ev), e.fi, e.node)
+        rfi, rnode = getattr(o.value, "_fi", fi), origin(o.value)
+        if isinstance(rnode, (ast.FunctionDef, ast.AsyncFunctionDef)):
+            rnode = e.node  # fell off the end: returns None
+            rfi = e.fi
+        obs.add("the handler stays registered exactly while responses are not final", W.equiv(o, o.value, "not %s.is_last" % Q.ev), rfi, _stmt_of(cfg_of(rfi), rnode))
+    # ---- exception events
+    n_add, renders = 0, {}
+    for o in Q.exc_outs:
+        adds = Q.adds(o)
+        afi, anode = _anchor(o, Q)
+        full = [e for e in adds if not e.partial]
+        if not obs.add("every path taken for an exception event adds a response", o.kind == "return" and len(full) >= 1, afi, anode,
+                       detail="path [%s] ends with %s and %d add_response call(s)" % (o.describe(), "an exception" if o.kind == "raise" else "return", len(full))):
             continue
-        hn = {i for h in hs for i in _rn(cfg, h)}
-        after = [A for A in Q.adds_exc if A.nid in cfg.reach(hn)]
-        okf = bool(after)
-        for A in after:
-            if isinstance(A.resp, ast.Name):
-                okf = okf and A.nid not in cfg.reach(hn, avoid=bare_writes.get(A.resp.id, set()))
+        obs.add("at most one response is added for an exception event", len(adds) == 1, adds[-1].fi, adds[-1].node, detail="%d add_response calls on the path [%s]" % (len(adds), o.describe()))
+        n_add += 1
+        for e in full:
+            obs.add("the response to an exception event is final", o.truth(_last_arg(e)) is True, e.fi, e.node)
+        rfi, rnode = getattr(o.value, "_fi", fi), origin(o.value)
+        if isinstance(rnode, (ast.FunctionDef, ast.AsyncFunctionDef)):
+            rfi, rnode = afi, anode
+        obs.add("after an exception event the handler deregisters (returns a false value)", o.truth(o.value) is False, rfi, _stmt_of(cfg_of(rfi), rnode))
+        # the renderer
+        for r in Q.renders(o):
+            renders[id(r.node)] = r
+            inst = _isinstance_decisions(o, W, Q.is_exc)
+            ok = any(val and all(q is not None and (q == "aiocoap.error.RenderableError" or prog.is_subclass(q, "aiocoap.error.RenderableError")) for q in qs) for val, qs in inst)
+            obs.add("to_message() is called only for RenderableError instances", ok, r.fi, r.node)
+        if not Q.renders(o):
+            # no rendering attempted: the exception must be known not to be renderable
+            inst = _isinstance_decisions(o, W, Q.is_exc)
+            ok = any((not val) and any(q is not None and (q == "aiocoap.error.RenderableError" or prog.is_subclass("aiocoap.error.RenderableError", q)) for q in qs) for val, qs in inst)
+            obs.add("every RenderableError is answered through its own to_message()", ok, afi, anode, detail="path [%s]" % o.describe())
+        # what is sent: the rendering only when it was produced and is not None
+        for e in full:
+            v = e.arg("response", 0)
+            mine = [r for r in Q.renders(o, partial=False) if r.expr is v]
+            if mine:
+                kv = K(v)
+                obs.add("a renderer that produces no message falls back to the bare 5.00 as well", o.is_none(lambda s: K(s) == kv) is False, e.fi, e.node,
+                        detail="the rendering is passed on without being tested against None on the path [%s]" % o.describe())
             else:
-                okf = okf and _is_bare_500(prog, fi, A.resp)
-        ctx.ob("the handler's path sends the bare 5.00 and nothing else", okf and all(cfg.must_pass(h, {A.nid for A in after}) for h in hn), fi, hs[0], construct="except %s" % (stmt_text(hs[0].type) if hs[0].type is not None else ""))
-        # a rendering that is None
-        w = cfg.parent.get(id(c))
-        if isinstance(w, ast.Assign) and len(w.targets) == 1 and isinstance(w.targets[0], ast.Name):
-            wn = _n1(ctx, cfg, w, "rendering")
-            same_var = lambda e, at: isinstance(e, ast.Name) and _value_at(cfg, fi.node, e, at)[0] is c
-            isnone = _none_nodes(cfg, same_var, True)
-            notnone = _none_nodes(cfg, same_var, False)
-            users = [A for A in Q.adds_exc if isinstance(A.resp, ast.Name) and any(v_ is c for v_ in _sources(cfg, fi.node, A.resp, A.nid))]
-            tested = bool(isnone) and all(A.nid not in cfg.reach({wn}, avoid=isnone | notnone, skip_labels=("exc",)) for A in users)
-            fb = bool(isnone) and all(A.nid not in cfg.reach(isnone, avoid=bare_writes.get(A.resp.id, set())) for A in users) and cfg.exit not in cfg.reach(isnone, avoid={A.nid for A in Q.adds_exc})
-            ctx.ob("a renderer that produces no message falls back to the bare 5.00 as well", bool(users) and tested and fb, fi, w)
-        else:
-            ctx.need(False, "to_message() result is not bound to a local")
-    # the handler is what listens on the inner pipe, and the inner pipe is returned
-    ocfg = cfg_of(Q.outer)
-    regs = [(c, b) for c, b in find("$p.on_event($h)", Q.outer.node) if isinstance(b["h"], ast.Name) and b["h"].id == fi.name]
-    rets = [n for n in walk_no_nested(Q.outer.node) if isinstance(n, ast.Return)]
-    ok = len(rets) == 1 and isinstance(rets[0].value, ast.Name) and any(isinstance(b["p"], ast.Name) and b["p"].id == rets[0].value.id and ocfg.must_pass(ocfg.entry, set(_rn(ocfg, c))) for c, b in regs)
-    ctx.ob("the pipe handed to the responder is the one this handler listens on", ok, Q.outer, regs[0][0] if regs else Q.outer.node, construct=None if regs else "error_to_message")
+                failed = bool(Q.renders(o)) and (any(r.partial for r in Q.renders(o)) or any(o.is_none(lambda s, r=r: s is r.expr or K(s) == K(r.expr)) for r in Q.renders(o)))
+                if failed:
+                    obs.add("the handler's path sends the bare 5.00 and nothing else", _bare_500(prog, W, v), e.fi, e.node, detail="sends %s" % K(v))
+    for r in renders.values():
+        # an exception leaving the renderer (any Exception) must be taken by a handler, here or in a function this was followed from
+        h = W.exception_safe(r, "Exception")
+        obs.add("a failing error renderer is caught by a handler for Exception", h is not None, r.fi, r.node)
+    obs.flush()
+    ctx.floor("forwarding sites on the message arm", n_fw, 1)
+    ctx.floor("add_response sites on the exception arm", n_add, 1)
+    ctx.floor("to_message() calls on the event's exception", len(renders), 1)
+    # ---- the handler is what listens on the inner pipe, and the inner pipe is returned
+    WO = Walker(prog)
+    oouts = WO.run(Q.outer)
+    ctx.need(bool(oouts), "error_to_message has no path")
+    for o in oouts:
+        ok = o.kind == "return"
+        node = Q.outer.node
+        if ok:
+            kv = K(o.value)
+            regs = [e for _, e in _method_calls(o, "on_event", lambda r: True, partial=False) if e.args and isinstance(e.args[0], ast.Name) and getattr(e.args[0], "_closure", (None,))[0] is fi.node]
+            ok = any(K(e.func.value) == kv for e in regs) and not isinstance(o.value, ast.Constant)
+            node = regs[0].node if regs else origin(o.value)
+        obs.add("the pipe handed to the responder is the one this handler listens on", ok, Q.outer, node if not isinstance(node, (ast.FunctionDef, ast.AsyncFunctionDef)) else None,
+                construct=None if not isinstance(node, (ast.FunctionDef, ast.AsyncFunctionDef)) else "error_to_message")
+    obs.flush()
+
+
+def _stmt_of(cfg, node):
+    """the statement a (sub)expression belongs to (for stable finding keys)"""
+    n = node
+    while n is not None and not isinstance(n, ast.stmt):
+        n = cfg.parent.get(id(n))
+    return n if n is not None else node
 
 
 @R.clause("C09.b", "nothing derived from the exception reaches the 5.00: every Message built in on_event is Message(code=INTERNAL_SERVER_ERROR) and is not modified; the non-renderable arm sends only that")
 def b(ctx):
     prog = ctx.prog
     Q = _e2m(ctx)
-    fi, cfg = Q.fi, Q.cfg
-    msgs = [c for c in calls_in(fi.node) if _cls_of(ctx, fi, c.func) == "aiocoap.message.Message"]
-    ctx.floor("Message(...) constructions in on_event", len(msgs), 1)
-    holders = set()
-    for c in msgs:
-        ctx.ob("a message built for a failed request is exactly Message(code=5.00): no payload, no option, nothing taken from the exception", _is_bare_500(prog, fi, c), fi, c)
-        p = cfg.parent.get(id(c))
-        if isinstance(p, ast.Assign):
-            for t in p.targets:
-                if isinstance(t, ast.Name):
-                    holders.add(t.id)
-    for n in walk_no_nested(fi.node):
-        tg = []
-        if isinstance(n, ast.Assign):
-            tg = n.targets
-        elif isinstance(n, (ast.AugAssign, ast.AnnAssign)):
-            tg = [n.target]
-        for t in tg:
-            base = t
+    fi, W = Q.fi, Q.W
+    obs = _Obs(ctx)
+    is_message = lambda v: isinstance(v, ast.Call) and W.cls_of(v.func) == "aiocoap.message.Message"
+    built = {}
+    for o in Q.outs:
+        for _, e in o.calls(lambda e: is_message(e.expr)):
+            built[id(e.node)] = e
+            obs.add("a message built for a failed request is exactly Message(code=5.00): no payload, no option, nothing taken from the exception", _bare_500(prog, W, e.expr), e.fi, e.node)
+        # the fallback message is not touched between construction and add_response
+        for _, s in o.stores():
+            base = s.target
             while isinstance(base, (ast.Attribute, ast.Subscript)):
                 base = base.value
-            if t is not base and isinstance(base, ast.Name) and base.id in holders:
-                ctx.ob("the fallback message is not modified after construction", False, fi, n)
-        if isinstance(n, ast.Call) and isinstance(n.func, ast.Attribute) and isinstance(n.func.value, ast.Name) and n.func.value.id in holders and n.func.attr not in ("to_message",):
-            ctx.ob("the fallback message is not modified after construction", False, fi, n)
+            if is_message(base):
+                obs.add("the fallback message is not modified after construction", False, s.fi, s.node)
+        for _, e in o.calls(lambda e: isinstance(e.func, ast.Attribute) and is_message(e.func.value)):
+            obs.add("the fallback message is not modified after construction", False, e.fi, e.node)
     # what each add_response on the exception arm can carry
-    for A in Q.adds_exc:
-        srcs = _sources(cfg, fi.node, A.resp, A.nid)
-        ok = bool(srcs)
-        rendered = False
-        for v in srcs:
-            m = match("$x.to_message()", v) if v is not None else None
-            if m is not None and Q.is_exc(m["x"], _rn(cfg, v)[0]):
-                rendered = True
-            elif not _is_bare_500(prog, fi, v):
-                ok = False
-        if rendered:
-            inst = any(match("isinstance($o, $c)", e_) is not None and pol for e_, pol, g in cfg.guards(A.nid))
-            ok = ok and inst
-        ctx.ob("an exception event is answered by the error's own rendering (renderable arm only) or by the bare 5.00", ok, fi, A.call,
-               detail="carries: %s" % [stmt_text(v, 60) if v is not None else "<unbound>" for v in srcs])
+    for o in Q.exc_outs:
+        for e in Q.adds(o):
+            v = e.arg("response", 0)
+            rendered = [r for r in Q.renders(o, partial=False) if r.expr is v]
+            if rendered:
+                inst = _isinstance_decisions(o, W, Q.is_exc)
+                ok = any(val for val, qs in inst)
+            else:
+                ok = v is not None and _bare_500(prog, W, v)
+            obs.add("an exception event is answered by the error's own rendering (renderable arm only) or by the bare 5.00", ok, e.fi, e.node, detail="carries: %s" % K(v))
+    obs.flush()
+    ctx.floor("Message(...) constructions in on_event", len(built), 1)
     # log calls may mention the exception; they are not part of the response
-    ctx.note("log.* calls on the exception arm take the exception as argument; they do not flow into add_response arguments (checked through reaching definitions)")
+    ctx.note("log.* calls on the exception arm take the exception as argument; they do not flow into add_response arguments (checked on the resolved argument of every add_response of every path)")
 
 
 # ---------------------------------------------------------------------------
@@ -506,68 +489,73 @@ def c(ctx):
     op = params(outer)
     ctx.need(len(op) >= 2 and not writes_to_name(outer.node, op[0]) and not writes_to_name(outer.node, op[1]), "run_driving_pipe signature changed")
     pipe, coro = op[0], op[1]
-    cfg = cfg_of(fi)
-    aws = [n for n in walk_no_nested(fi.node) if isinstance(n, ast.Await) and isinstance(n.value, ast.Name) and n.value.id == coro and _closure_ref(fi.node, coro, coro)]
-    ctx.floor("awaits of the render coroutine", len(aws), 1)
-    for aw in aws:
-        tr = _enclosing_try(cfg, aw, fi.node)
-        if not ctx.ob("the render coroutine is awaited inside a try statement", tr is not None, fi, aw):
-            continue
-        hs = [h for h in tr.handlers if _handler_catches(prog, fi, h, "Exception")]
-        if not ctx.ob("every Exception raised by the render coroutine is caught", bool(hs), fi, tr.handlers[0] if tr.handlers else aw,
-                      construct="except %s" % (stmt_text(tr.handlers[0].type) if tr.handlers and tr.handlers[0].type is not None else "")):
-            continue
-        for h in hs:
-            reps = set()
-            for c_, b_ in find("%s.add_exception($e)" % pipe, h):
-                if isinstance(b_["e"], ast.Name) and b_["e"].id == h.name:
-                    reps |= set(_rn(cfg, c_))
-            hn = _rn(cfg, h)
-            ctx.ob("the caught exception is reported as the pipe's terminal event on every path of the handler", bool(reps) and _closure_ref(fi.node, pipe, pipe) and all(cfg.must_pass(i, reps) for i in hn), fi, h,
-                   construct="except %s" % (stmt_text(h.type) if h.type is not None else ""))
+    ctx.need(_closure_ref(fi.node, coro, coro) and _closure_ref(fi.node, pipe, pipe), "wrapped() does not see run_driving_pipe's pipe / coroutine")
+    obs = _Obs(ctx)
+    W = Walker(prog)
+    outs = W.run(fi)
+    n_aw = 0
+    for o in outs:
+        aws = [(j, e) for j, e in enumerate(o.events) if e.kind == "await" and chain(e.value) == coro]
+        for j, aw in aws:
+            n_aw += 1
+            obs.add("every Exception raised by the render coroutine is caught", W.exception_safe(aw, "Exception") is not None, aw.fi, aw.node)
+            if not aw.partial:
+                continue
+            # the coroutine raised: what the handler caught is the very exception raised at this await
+            reps = [e for jj, e in _method_calls(o, "add_exception", lambda r: chain(r) == pipe, partial=False) if jj > j and len(e.args) == 1 and getattr(e.args[0], "_implicit", False)
+                    and contains(origin(e.args[0]), aw.node)]
+            obs.add("the caught exception is reported as the pipe's terminal event on every path of the handler", o.kind == "return" and bool(reps), aw.fi, aw.node, detail="path [%s]" % o.describe())
+    obs.flush()
+    ctx.floor("awaits of the render coroutine", n_aw, 1)
     # the task runs wrapped()
-    tasks = [c_ for c_ in calls_in(outer.node) if isinstance(c_.func, ast.Attribute) and c_.func.attr in ("create_task", "ensure_future") and c_.args
-             and isinstance(c_.args[0], ast.Call) and isinstance(c_.args[0].func, ast.Name) and c_.args[0].func.id == fi.name]
-    ocfg = cfg_of(outer)
-    ctx.ob("run_driving_pipe always starts a task running the wrapper", bool(tasks) and ocfg.must_pass(ocfg.entry, {i for t in tasks for i in _rn(ocfg, t)}), outer, tasks[0] if tasks else outer.node, construct=None if tasks else "run_driving_pipe")
+    WO = Walker(prog)
+    for o in WO.run(outer):
+        if o.kind != "return":
+            continue
+        tasks = [e for _, e in o.calls(lambda e: isinstance(e.func, ast.Attribute) and e.func.attr in ("create_task", "ensure_future") and e.args and isinstance(e.args[0], ast.Call) and not e.args[0].args
+                                       and isinstance(e.args[0].func, ast.Name) and getattr(e.args[0].func, "_closure", (None,))[0] is fi.node, partial=False)]
+        obs.add("run_driving_pipe always starts a task running the wrapper", bool(tasks), outer, tasks[0].node if tasks else None, construct=None if tasks else "run_driving_pipe")
+    obs.flush()
     # Context.render_to_pipe
     cf = prog.func("protocol.Context.render_to_pipe")
     cp = params(cf)
     ctx.need(len(cp) == 1 and not writes_to_name(cf.node, cp[0]), "Context.render_to_pipe signature changed")
-    ccfg = cfg_of(cf)
-    runs = [c_ for c_, _ in find("run_driving_pipe($*a, $**k)", cf.node) if _cls_of(ctx, cf, c_.func) == "aiocoap.pipe.run_driving_pipe"]
-    ctx.floor("run_driving_pipe calls in Context.render_to_pipe", len(runs), 1)
-    for c_ in runs:
-        cn = _n1(ctx, ccfg, c_, "run_driving_pipe call")
-        a0, a1 = _kw(c_, "pipe", 0), _kw(c_, "coroutine", 1)
-        v0, p0 = _value_at(ccfg, cf.node, a0, cn) if a0 is not None else (None, ())
-        m0 = match("error_to_message($p, $*r)", v0) if v0 is not None and not p0 else None
-        ctx.ob("exceptions of the render task are routed into error_to_message around the request's pipe", m0 is not None and chain(m0["p"]) == cp[0] and _cls_of(ctx, cf, v0.func) == "aiocoap.pipe.error_to_message", cf, c_)
-        v1, p1 = _value_at(ccfg, cf.node, a1, cn) if a1 is not None else (None, ())
-        m1 = match("self._render_to_pipe($p)", v1) if v1 is not None and not p1 else None
-        ctx.ob("the render task renders into the request's pipe", m1 is not None and chain(m1["p"]) == cp[0], cf, c_)
-    ctx.ob("every request handed to the context is rendered", ccfg.must_pass(ccfg.entry, {i for c_ in runs for i in _rn(ccfg, c_)}), cf, runs[0])
-    # add_exception produces a terminal event
-    af = prog.func("pipe.Pipe.add_exception")
-    ap = params(af)
-    evs = [c_ for c_, _ in find("self._add_event($e)", af.node)]
-    ok = False
-    for c_ in evs:
-        ev = c_.args[0]
-        if isinstance(ev, ast.Call) and chain(ev.func) in ("self.Event", "Pipe.Event"):
-            ex, last = _kw(ev, "exception", 1), _kw(ev, "is_last", 2)
-            ok = isinstance(ex, ast.Name) and ex.id == ap[0] and isinstance(last, ast.Constant) and last.value is True
-    ctx.ob("add_exception emits an event that carries the exception and is final", ok, af, evs[0] if evs else af.node, construct=None if evs else "Pipe.add_exception")
-    rf = prog.func("pipe.Pipe.add_response")
-    rp = params(rf)
-    evs = [c_ for c_, _ in find("self._add_event($e)", rf.node)]
-    ok = False
-    for c_ in evs:
-        ev = c_.args[0]
-        if isinstance(ev, ast.Call) and chain(ev.func) in ("self.Event", "Pipe.Event"):
-            ms, last = _kw(ev, "message", 0), _kw(ev, "is_last", 2)
-            ok = isinstance(ms, ast.Name) and ms.id == rp[0] and isinstance(last, ast.Name) and last.id == rp[1] and not writes_to_name(rf.node, rp[1])
-    ctx.ob("add_response emits an event that carries the response and the caller's is_last", ok, rf, evs[0] if evs else rf.node, construct=None if evs else "Pipe.add_response")
+    WC = Walker(prog)
+    n_runs = 0
+    for o in WC.run(cf):
+        if o.kind != "return":
+            continue
+        runs = [e for _, e in o.calls(lambda e: WC.cls_of(e.func) == "aiocoap.pipe.run_driving_pipe", partial=False)]
+        obs.add("every request handed to the context is rendered", bool(runs), cf, runs[0].node if runs else None, construct=None if runs else "Context.render_to_pipe", detail="path [%s]" % o.describe())
+        for e in runs:
+            n_runs += 1
+            v0, v1 = e.arg("pipe", 0), e.arg("coroutine", 1)
+            ok0 = isinstance(v0, ast.Call) and WC.cls_of(v0.func) == "aiocoap.pipe.error_to_message" and v0.args and chain(v0.args[0]) == cp[0]
+            obs.add("exceptions of the render task are routed into error_to_message around the request's pipe", ok0, e.fi, e.node)
+            ok1 = isinstance(v1, ast.Call) and chain(v1.func) == "self._render_to_pipe" and len(v1.args) == 1 and chain(v1.args[0]) == cp[0] and not v1.keywords
+            obs.add("the render task renders into the request's pipe", ok1, e.fi, e.node)
+    obs.flush()
+    ctx.floor("run_driving_pipe calls in Context.render_to_pipe", n_runs, 1)
+    # add_exception produces a terminal event, add_response one with the caller's is_last
+    for short, desc, check in (
+        ("pipe.Pipe.add_exception", "add_exception emits an event that carries the exception and is final",
+         lambda ev, ps, f: chain(_kw(ev, "exception", 1)) == ps[0] and isinstance(_kw(ev, "is_last", 2), ast.Constant) and _kw(ev, "is_last", 2).value is True),
+        ("pipe.Pipe.add_response", "add_response emits an event that carries the response and the caller's is_last",
+         lambda ev, ps, f: chain(_kw(ev, "message", 0)) == ps[0] and chain(_kw(ev, "is_last", 2)) == ps[1] and not writes_to_name(f.node, ps[1]) and not writes_to_name(f.node, ps[0])),
+    ):
+        af = prog.func(short)
+        ap = params(af)
+        WA = Walker(prog)
+        for o in WA.run(af):
+            if o.kind != "return":
+                continue
+            evs = [e for _, e in _method_calls(o, "_add_event", lambda r: chain(r) == "self", partial=False)]
+            ok = len(evs) == 1 and len(evs[0].args) == 1
+            if ok:
+                ev = evs[0].args[0]
+                ok = isinstance(ev, ast.Call) and chain(ev.func) in ("self.Event", "Pipe.Event", "type(self).Event") and not any(isinstance(x, ast.Starred) for x in ev.args) and check(ev, ap, af)
+            obs.add(desc, bool(ok), af, evs[0].node if evs else None, construct=None if evs else short.split(".", 1)[1])
+    obs.flush()
 
 
 # ---------------------------------------------------------------------------
@@ -580,43 +568,136 @@ def d(ctx):
     fi = prog.func("protocol.Context._render_to_pipe")
     p = params(fi)
     ctx.need(len(p) == 1 and not writes_to_name(fi.node, p[0]), "Context._render_to_pipe signature changed")
-    cfg = cfg_of(fi)
-    subj = lambda e, at: chain(e) == "self.serversite"
-    nosite = _none_nodes(cfg, subj, True)
-    site = _none_nodes(cfg, subj, False)
-    ctx.need(nosite and site, "_render_to_pipe does not branch on `self.serversite is None`")
-    adds = [A for A in _adds(cfg, fi.node, p[0])]
-    arm = cfg.reach(nosite, avoid=site, include_src=True)
-    mine = [A for A in adds if A.nid in arm]
-    if not ctx.ob("a context without a site answers the request", bool(mine) and all(cfg.must_pass(x, {A.nid for A in mine}) for x in nosite), fi, mine[0].call if mine else fi.node, construct=None if mine else "Context._render_to_pipe"):
-        return
-    for A in mine:
-        ctx.ob("the no-site response is final", A.kind == "final", fi, A.call)
-        v, vp = _value_at(cfg, fi.node, A.resp, A.nid)
-        code = _kw(v, "code") if isinstance(v, ast.Call) and _cls_of(ctx, fi, v.func) == "aiocoap.message.Message" else None
-        cv = _code_value(prog, fi.module, code) if code is not None else None
-        ctx.ob("the no-site response is 4.04 Not Found", cv is not None and cv[1] == _num(RESPONSE_CODES["NOT_FOUND"]), fi, A.call, detail="code %s" % (cv,))
-        ctx.ob("exactly one response is added without a site", not (cfg.reach({A.nid}, skip_labels=("exc",)) & {B.nid for B in adds}), fi, A.call)
-    dels = [c for c, b in find("self.serversite.render_to_pipe($x)", fi.node)]
-    ctx.floor("delegations to the site", len(dels), 1)
-    for c in dels:
-        cn = _n1(ctx, cfg, c, "site delegation")
-        ctx.ob("the site is only consulted when there is one", any(cn in cfg.reach({s}, include_src=True) for s in site) and cn not in arm, fi, c)
-        ctx.ob("the site renders into the request's pipe", isinstance(c.args[0], ast.Name) and c.args[0].id == p[0], fi, c)
-        par = cfg.parent.get(id(c))
-        ctx.ob("the site's rendering is awaited inside the render task", isinstance(par, ast.Await), fi, c)
-    ctx.ob("with a site every normal path delegates to it", all(cfg.must_pass(s, {i for c in dels for i in _rn(cfg, c)}) for s in site), fi, dels[0])
+    W = Walker(prog)
+    outs = W.run(fi)
+    ctx.need(bool(outs), "Context._render_to_pipe has no path")
+    obs = _Obs(ctx)
+    is_site = lambda v: chain(v) == "self.serversite"
+    n_nosite = n_site = 0
+    for o in outs:
+        n = o.is_none(is_site)
+        ctx.need(n is not None, "_render_to_pipe has a path that does not decide `self.serversite is None` (%s)" % o.describe())
+        adds = [e for _, e in _method_calls(o, "add_response", lambda r: chain(r) == p[0])]
+        full = [e for e in adds if not e.partial]
+        dels = [e for _, e in _method_calls(o, "render_to_pipe", is_site)]
+        if n:
+            n_nosite += 1
+            for e in dels:
+                obs.add("the site is only consulted when there is one", False, e.fi, e.node)
+            if not obs.add("a context without a site answers the request", o.kind == "return" and bool(full), full[0].fi if full else fi, full[0].node if full else None,
+                           construct=None if full else "Context._render_to_pipe", detail="path [%s]" % o.describe()):
+                continue
+            obs.add("exactly one response is added without a site", len(adds) == 1, adds[-1].fi, adds[-1].node, detail="%d add_response calls on the path [%s]" % (len(adds), o.describe()))
+            for e in full:
+                obs.add("the no-site response is final", o.truth(_last_arg(e)) is True, e.fi, e.node)
+                v = e.arg("response", 0)
+                flds = _message_fields(W, o, v)
+                code = flds.get("code") if flds is not None else None
+                cv = _code_value(prog, code._fi.module, code) if code is not None and getattr(code, "_fi", None) is not None else None
+                obs.add("the no-site response is 4.04 Not Found", cv is not None and cv[1] == _num(RESPONSE_CODES["NOT_FOUND"]), e.fi, e.node, detail="code %s" % (cv,))
+        else:
+            if o.kind != "return":
+                continue
+            n_site += 1
+            done = [e for e in dels if not e.partial]
+            if not obs.add("with a site every normal path delegates to it", bool(done), done[0].fi if done else fi, done[0].node if done else None,
+                           construct=None if done else "Context._render_to_pipe", detail="path [%s]" % o.describe()):
+                continue
+            for e in done:
+                obs.add("the site renders into the request's pipe", len(e.args) == 1 and chain(e.args[0]) == p[0] and not e.kw, e.fi, e.node)
+                obs.add("the site's rendering is awaited inside the render task", e.awaited, e.fi, e.node)
+            for e in adds:
+                obs.add("with a site the context adds no response of its own (the site's rendering is the one response)", False, e.fi, e.node)
+    ctx.need(n_nosite and n_site, "_render_to_pipe does not branch on `self.serversite is None`")
+    obs.flush()
 
 
 # ---------------------------------------------------------------------------
 # C09.e
 
 
-def _raise_class(ctx, fi, r):
-    e = r.exc
-    if isinstance(e, ast.Call):
-        e = e.func
-    return _cls_of(ctx, fi, e) if e is not None else None
+def _handler_name_ok(nm, req):
+    """nm (resolved) spells "render_" + lower-case name of the request's method: %-format, f-string, concatenation or
+    str.format; the method name as str(code) or code.name (Code.__str__ returns self.name for request codes)"""
+    def lowered(x):
+        return match("str(%s.code).lower()" % req, x) is not None or match("%s.code.name.lower()" % req, x) is not None or match("format(%s.code).lower()" % req, x) is not None
+    mm = match('"render_%s" % $x', nm)
+    if mm is not None:
+        x = mm["x"]
+        if isinstance(x, ast.Tuple) and len(x.elts) == 1:
+            x = x.elts[0]
+        return lowered(x)
+    if isinstance(nm, ast.JoinedStr):
+        parts = nm.values
+        return len(parts) == 2 and isinstance(parts[0], ast.Constant) and parts[0].value == "render_" and isinstance(parts[1], ast.FormattedValue) \
+            and parts[1].conversion in (-1, 115) and parts[1].format_spec is None and lowered(parts[1].value)
+    mm = match('"render_" + $x', nm)
+    if mm is not None:
+        return lowered(mm["x"])
+    mm = match('"render_{}".format($x)', nm) or match('"render_{0}".format($x)', nm)
+    if mm is not None:
+        return lowered(mm["x"])
+    return False
+
+
+def _code_for_method(prog, W, o, v, subj, mth):
+    """(member name, number) of the Code constant the resolved expression v denotes when the request's method is mth:
+    a Code constant, a conditional expression over the method, or a lookup in a literal table keyed by Code constants"""
+    fi = getattr(v, "_fi", None)
+    if fi is None:
+        return None
+    cv = _code_value(prog, fi.module, v)
+    if cv is not None:
+        return cv
+    if isinstance(v, ast.IfExp):
+        vals = dict(o.vals)
+        vals[subj] = mth
+        t = W._truth(v.test, o.dec, vals)
+        if t is None:
+            return None
+        return _code_for_method(prog, W, o, v.body if t else v.orelse, subj, mth)
+    table = key = default = None
+    if isinstance(v, ast.Subscript):
+        table, key = v.value, v.slice
+    elif isinstance(v, ast.Call) and isinstance(v.func, ast.Attribute) and v.func.attr == "get" and 1 <= len(v.args) <= 2 and not v.keywords:
+        table, key = v.func.value, v.args[0]
+        default = v.args[1] if len(v.args) == 2 else None
+    if table is None or K(key) != subj:
+        return None
+    d = table
+    if not isinstance(d, ast.Dict):
+        c = chain(d)
+        tfi = getattr(d, "_fi", None)
+        if c is None or tfi is None:
+            return None
+        parts = c.split(".")
+        d = None
+        try:
+            if len(parts) == 1:
+                d = prog.module_const(tfi.module.name, parts[0])
+            elif len(parts) == 2 and parts[0] in ("self", "cls") and W._clsqn(tfi) is not None:
+                d = prog.class_attr(W._clsqn(tfi), parts[1])[0]
+            elif len(parts) == 2:
+                q = prog.resolve_in_module(tfi.module, parts[0])
+                d = prog.class_attr(q, parts[1])[0] if q in prog.classes else None
+        except AnchorError:
+            d = None
+        if not isinstance(d, ast.Dict):
+            return None
+        tmod = tfi.module
+    else:
+        tmod = getattr(d, "_fi", fi).module
+    for k_, v_ in zip(d.keys, d.values):
+        if k_ is None:
+            return None
+        kc = _code_value(prog, tmod, k_)
+        if kc is None:
+            return None
+        if kc[0] == mth:
+            return _code_value(prog, tmod, v_)
+    if default is not None:
+        return _code_for_method(prog, W, o, default, subj, mth)
+    return None
 
 
 @R.clause("C09.e", "Resource.render: non-request code -> UnsupportedMethod, missing render_<method> -> UnallowedMethod (both 4.05); default code table applied iff response.code is None; no_response copied iff unset")
@@ -626,93 +707,132 @@ def e(ctx):
     p = params(fi)
     ctx.need(len(p) == 1 and not writes_to_name(fi.node, p[0]), "Resource.render signature changed")
     req = p[0]
-    cfg = cfg_of(fi)
+    subj = "%s.code" % req
     c405 = _num(RESPONSE_CODES["METHOD_NOT_ALLOWED"])
-    raises = [n for n in walk_no_nested(fi.node) if isinstance(n, ast.Raise)]
-    isreq = "%s.code.is_request()" % req
-    # (1) not a request code
-    r1 = [r for r in raises if _rn(cfg, r) and guarded_by(cfg, _rn(cfg, r)[0], isreq, False)]
-    if ctx.ob("a message whose code is not a request code is rejected", bool(r1), fi, r1[0] if r1 else fi.node, construct=None if r1 else "Resource.render"):
-        for r in r1:
-            q = _raise_class(ctx, fi, r)
-            ctx.ob("the rejection of a non-request code is error.UnsupportedMethod", q == "aiocoap.error.UnsupportedMethod", fi, r, detail="raises %s" % q)
-            ctx.ob("the rejection of a non-request code renders as 4.05", q is not None and q in prog.classes and _class_code(prog, q) == c405 and prog.is_subclass(q, "aiocoap.error.RenderableError"), fi, r)
-    # (2) handler lookup
-    hcalls = []
-    for aw in walk_no_nested(fi.node):
-        if isinstance(aw, ast.Await) and isinstance(aw.value, ast.Call) and isinstance(aw.value.func, ast.Name) and len(aw.value.args) == 1 and isinstance(aw.value.args[0], ast.Name) and aw.value.args[0].id == req:
-            cn = _rn(cfg, aw)
-            if cn:
-                v, vp = _value_at(cfg, fi.node, aw.value.func, cn[0])
-                if match("getattr(self, $n, $d)", v) is not None:
-                    hcalls.append((aw, cn[0], aw.value.func.id, v))
-    ctx.floor("handler invocations in Resource.render", len(hcalls), 1)
-    for aw, cn, hname, g in hcalls:
-        m = match("getattr(self, $n, $d)", g)
-        nm = m["n"]
-        ok_name = False
-        mm = match('"render_%s" % $x', nm)
-        if mm is not None:
-            ok_name = match("str(%s.code).lower()" % req, mm["x"]) is not None
-        elif isinstance(nm, ast.JoinedStr):
-            parts = nm.values
-            ok_name = len(parts) == 2 and isinstance(parts[0], ast.Constant) and parts[0].value == "render_" and isinstance(parts[1], ast.FormattedValue) and match("str(%s.code).lower()" % req, parts[1].value) is not None
-        else:
-            mm = match('"render_" + $x', nm)
-            ok_name = mm is not None and match("str(%s.code).lower()" % req, mm["x"]) is not None
-        ctx.ob("the handler is looked up as render_<lower-case method name> of the request", ok_name and isinstance(m["d"], ast.Constant) and m["d"].value is None, fi, g)
-        ctx.ob("the handler runs only for request codes", guarded_by(cfg, cn, isreq, True), fi, aw)
-        truthy = [(e_, pol) for e_, pol, g_ in cfg.guards(cn) if isinstance(e_, ast.Name) and e_.id == hname and pol] + \
-                 [1 for e_, pol, g_ in cfg.guards(cn) if isinstance(e_, ast.Compare) and isinstance(e_.left, ast.Name) and e_.left.id == hname and isinstance(e_.comparators[0], ast.Constant)
-                  and e_.comparators[0].value is None and ((isinstance(e_.ops[0], ast.IsNot) and pol) or (isinstance(e_.ops[0], ast.Is) and not pol))]
-        ctx.ob("the handler is only invoked when the resource has one", bool(truthy), fi, aw)
-        r2 = []
-        for r in raises:
-            for i in _rn(cfg, r):
-                for e_, pol, g_ in cfg.guards(i):
-                    if (isinstance(e_, ast.Name) and e_.id == hname and not pol) or (isinstance(e_, ast.Compare) and isinstance(e_.left, ast.Name) and e_.left.id == hname and isinstance(e_.comparators[0], ast.Constant)
-                                                                                     and e_.comparators[0].value is None and ((isinstance(e_.ops[0], ast.Is) and pol) or (isinstance(e_.ops[0], ast.IsNot) and not pol))):
-                        r2.append(r)
-        if ctx.ob("a method the resource does not implement is rejected", bool(r2), fi, r2[0] if r2 else g):
-            for r in r2:
-                q = _raise_class(ctx, fi, r)
-                ctx.ob("the rejection of an unimplemented method is error.UnallowedMethod", q == "aiocoap.error.UnallowedMethod", fi, r, detail="raises %s" % q)
-                ctx.ob("the rejection of an unimplemented method renders as 4.05", q is not None and q in prog.classes and _class_code(prog, q) == c405 and prog.is_subclass(q, "aiocoap.error.RenderableError"), fi, r)
-    # (3) the returned response and its default code
-    rets = [n for n in walk_no_nested(fi.node) if isinstance(n, ast.Return) and n.value is not None]
-    ctx.need(len(rets) == 1 and isinstance(rets[0].value, ast.Name), "Resource.render does not return a single local")
-    resp = rets[0].value.id
-    rn_ = _n1(ctx, cfg, rets[0], "return")
-    srcs = [_bound(w, resp)[0] for _, w in _reaching(cfg, fi.node, resp, rn_)[0]]
-    ctx.ob("the value returned is what the handler returned (or the deprecated NoResponse stand-in)", any(isinstance(v, ast.Await) and any(v is h[0] for h in hcalls) for v in srcs)
-           and all((isinstance(v, ast.Await) and any(v is h[0] for h in hcalls)) or (isinstance(v, ast.Call) and _cls_of(ctx, fi, v.func) == "aiocoap.message.Message") for v in srcs), fi, rets[0])
-    code_none_t = _none_nodes(cfg, lambda e_, at: chain(e_) == resp + ".code", True)
-    code_stores = [n for n in walk_no_nested(fi.node) if isinstance(n, ast.Assign) and any(chain(t) == resp + ".code" for t in n.targets)]
-    ctx.floor("stores to response.code", len(code_stores), 1)
-    leaves = []  # (write stmt, node id, value expr)
-    for st in code_stores:
-        sid = _n1(ctx, cfg, st, "code store")
-        ctx.ob("a code chosen by the handler is never overwritten (default applied only if response.code is None)", any(t in cfg.dominators(sid) for t in code_none_t), fi, st)
-        if isinstance(st.value, ast.Name) and writes_to_name(fi.node, st.value.id):
-            ws, live = _reaching(cfg, fi.node, st.value.id, sid)
-            ctx.ob("the default code is bound on every path to its use", not live, fi, st)
-            for x, w in ws:
-                leaves.append((w, x, _bound(w, st.value.id)[0]))
-        else:
-            leaves.append((st, sid, st.value))
-    stn = {i for st in code_stores for i in _rn(cfg, st)}
-    ctx.ob("a response without a code always gets a default code", bool(code_none_t) and all(cfg.must_pass(t, stn, to=rn_) for t in code_none_t), fi, code_stores[0])
+    # every path of render (helpers followed), once per request method wherever the method is tested
+    W = Walker(prog, subjects={subj: list(METHODS)})
+    outs = W.run(fi)
+    ctx.need(bool(outs), "Resource.render has no path")
+    if W.followed:
+        ctx.note("helpers followed from Resource.render: %s" % ", ".join(W.followed))
+    obs = _Obs(ctx)
+
+    def is_request(o):
+        r = None
+        for dcs in o.decisions:
+            m = match("$r.code.is_request()", dcs.expr)
+            if m is not None and chain(m["r"]) == req:
+                r = dcs.val
+        return r
+
+    def lookup(f_):
+        """bindings of a handler lookup `getattr(self, <name>[, <default>])`"""
+        m_ = match("getattr(self, $n, $d)", f_)
+        if m_ is None:
+            m_ = match("getattr(self, $n)", f_)
+        return m_
+
+    def invocations(o):
+        return [e_ for _, e_ in o.calls(lambda e_: e_.awaited and len(e_.args) == 1 and chain(e_.args[0]) == req and not e_.kw and lookup(e_.func) is not None)]
+
+    def has_handler(o, h_):
+        """did the lookup h_ yield a handler on this path?  With a default: the result is tested (truthiness / is None).
+        Without one: the getattr call completed (True) or left through an exception edge (False: AttributeError)."""
+        if "d" in lookup(h_):
+            return o.present(h_)
+        kh = K(h_)
+        evs = [x for _, x in o.calls(lambda x: K(x.expr) == kh)]
+        if not evs:
+            return None
+        return not any(x.partial for x in evs)
+
+    def raised(o):
+        rs = [e_ for e_ in o.events if e_.kind == "raise"]
+        return rs[-1] if rs else None
+
+    def renders_405(q):
+        return q is not None and q in prog.classes and _class_code(prog, q) == c405 and prog.is_subclass(q, "aiocoap.error.RenderableError")
+
+    handlers = {}
+    for o in outs:
+        for e_ in invocations(o):
+            handlers.setdefault(K(e_.func), e_.func)
+    ctx.floor("handler invocations in Resource.render", len(handlers), 1)
+    n_unsupported = n_unallowed = 0
     table = {}
-    for w, x, v in leaves:
-        cv = _code_value(prog, fi.module, v) if v is not None else None
-        ctx.need(cv is not None, "default code %s is not a Code constant" % (stmt_text(v) if v is not None else "?"))
-        alive, others = mtype_values([(e_, pol) for e_, pol, g_ in cfg.guards(x)], "%s.code" % req, tuple(METHODS))
-        for mth in alive:
-            table.setdefault(mth, []).append((cv, w))
+    n_code_store = n_nr = 0
+    for o in outs:
+        isreq = is_request(o)
+        r = raised(o) if o.kind == "raise" else None
+        q = W._exc_class(o.value) if o.kind == "raise" else None
+        rfi, rnode = (r.fi, r.node) if r is not None else (fi, None)
+        if isreq is False:
+            # (1) not a request code
+            n_unsupported += 1
+            if obs.add("a message whose code is not a request code is rejected", o.kind == "raise", rfi, rnode, construct=None if rnode is not None else "Resource.render", detail="path [%s]" % o.describe()):
+                obs.add("the rejection of a non-request code is error.UnsupportedMethod", q == "aiocoap.error.UnsupportedMethod", rfi, rnode, detail="raises %s" % q)
+                obs.add("the rejection of a non-request code renders as 4.05", renders_405(q), rfi, rnode)
+            continue
+        inv = invocations(o)
+        pres = [has_handler(o, h_) for h_ in handlers.values()]
+        present = True if any(x is True for x in pres) else (False if any(x is False for x in pres) else None)
+        if present is False:
+            # (2) no handler for the method
+            n_unallowed += 1
+            if obs.add("a method the resource does not implement is rejected", o.kind == "raise" and not inv, rfi, rnode, construct=None if rnode is not None else "Resource.render", detail="path [%s]" % o.describe()):
+                obs.add("the rejection of an unimplemented method is error.UnallowedMethod", q == "aiocoap.error.UnallowedMethod", rfi, rnode, detail="raises %s" % q)
+                obs.add("the rejection of an unimplemented method renders as 4.05", renders_405(q), rfi, rnode)
+            continue
+        for e_ in inv:
+            m = lookup(e_.func)
+            obs.add("the handler is looked up as render_<lower-case method name> of the request", _handler_name_ok(m["n"], req) and ("d" not in m or (isinstance(m["d"], ast.Constant) and m["d"].value is None)), getattr(e_.func, "_fi", e_.fi), origin(e_.func))
+            obs.add("the handler runs only for request codes", isreq is True, e_.fi, e_.node, detail="path [%s]" % o.describe())
+            obs.add("the handler is only invoked when the resource has one", has_handler(o, e_.func) is True, e_.fi, e_.node, detail="path [%s]" % o.describe())
+        if o.kind != "return":
+            obs.add("only a non-request code or a missing handler makes render fail", False, rfi, rnode, construct=None if rnode is not None else "Resource.render", detail="raises %s on the path [%s]" % (q, o.describe()))
+            continue
+        # (3) the returned response and its default code
+        v = o.value
+        kv = K(v)
+        vfi, vnode = getattr(v, "_fi", fi), _stmt_of(cfg_of(getattr(v, "_fi", fi)), origin(v))
+        from_handler = isinstance(v, ast.Await) and any(v.value is e_.expr for e_ in inv)
+        stand_in = isinstance(v, ast.Call) and W.cls_of(v.func) == "aiocoap.message.Message"
+        obs.add("the value returned is what the handler returned (or the deprecated NoResponse stand-in)", bool(inv) and (from_handler or stand_in), vfi, vnode, detail="returns %s" % kv)
+        is_code = lambda s: isinstance(s, ast.Attribute) and s.attr == "code" and K(s.value) == kv
+        is_nr = lambda s: isinstance(s, ast.Attribute) and s.attr == "no_response" and isinstance(s.value, ast.Attribute) and s.value.attr == "opt" and K(s.value.value) == kv
+        for what, pred in (("code", is_code), ("no_response", is_nr)):
+            unset = o.is_none(pred)
+            sts = o.stores(lambda s: s.kind == "store" and pred(s.target))
+            tested_before = lambda j: any(dcs.pos <= j and none_test(dcs.expr) is not None and pred(none_test(dcs.expr)[0]) and (dcs.val == none_test(dcs.expr)[1]) for dcs in o.decisions)
+            for j, s in sts:
+                if what == "code":
+                    n_code_store += 1
+                    obs.add("a code chosen by the handler is never overwritten (default applied only if response.code is None)", tested_before(j), s.fi, s.node, detail="path [%s]" % o.describe())
+                else:
+                    n_nr += 1
+                    obs.add("a no_response value set by the handler is kept (copy only if unset)", tested_before(j), s.fi, s.node, detail="path [%s]" % o.describe())
+                    obs.add("the copied value is the request's no_response option", chain(s.value) == req + ".opt.no_response", s.fi, s.node)
+            if unset is True:
+                pin = [dcs for dcs in o.decisions if none_test(dcs.expr) is not None and pred(none_test(dcs.expr)[0])][-1]
+                if what == "code":
+                    obs.add("a response without a code always gets a default code", bool(sts), pin.fi, _stmt_of(cfg_of(pin.fi), pin.node), detail="path [%s]" % o.describe())
+                else:
+                    obs.add("an unset no_response is always filled from the request", bool(sts), pin.fi, _stmt_of(cfg_of(pin.fi), pin.node), detail="path [%s]" % o.describe())
+            if what == "code" and sts and unset is True:
+                j, s = sts[-1]
+                for mth in ([o.vals[subj]] if subj in o.vals else list(METHODS)):
+                    cv = _code_for_method(prog, W, o, s.value, subj, mth)
+                    ctx.need(cv is not None, "default code %s is not a Code constant for %s" % (K(s.value), mth))
+                    table.setdefault(mth, []).append((cv, s))
+    obs.add("a message whose code is not a request code is rejected", n_unsupported >= 1, fi, None, construct="Resource.render: non-request codes")
+    obs.add("a method the resource does not implement is rejected", n_unallowed >= 1, fi, None, construct="Resource.render: missing handler")
+    obs.add("the request's No-Response option is copied to the response", n_nr >= 1, fi, None, construct="Resource.render: no_response")
+    obs.flush()
+    ctx.floor("stores to response.code", n_code_store, 1)
     for mth, want in DEFAULT_CODE.items():
         got = table.get(mth, [])
-        vals = sorted({cv[1] for cv, w in got})
-        ctx.ob("default response code for %s is %d.%02d" % (mth, want[0], want[1]), vals == [_num(want)], fi, got[0][1] if got else code_stores[0], detail="assigned: %s" % [cv[0] for cv, w in got],
+        vals = sorted({cv[1] for cv, s in got})
+        ctx.ob("default response code for %s is %d.%02d" % (mth, want[0], want[1]), vals == [_num(want)], got[0][1].fi if got else fi, got[0][1].node if got else None, detail="assigned: %s" % sorted({cv[0] for cv, s in got}),
                construct="default code for %s" % mth)
     # method constants used in the guards must denote the RFC 7252 / 8132 numbers
     ci = prog.cls("numbers.codes.Code")
@@ -722,15 +842,6 @@ def e(ctx):
         except norm.NormError:
             val = None
         ctx.ob("Code.%s == %d" % (mth, num), val == num, None, None, construct="Code.%s" % mth, detail="value %r" % val)
-    # (4) no_response
-    nr = [n for n in walk_no_nested(fi.node) if isinstance(n, ast.Assign) and any(chain(t) == resp + ".opt.no_response" for t in n.targets)]
-    if ctx.ob("the request's No-Response option is copied to the response", bool(nr), fi, nr[0] if nr else rets[0]):
-        unset = _none_nodes(cfg, lambda e_, at: chain(e_) == resp + ".opt.no_response", True)
-        for n in nr:
-            nid = _n1(ctx, cfg, n, "no_response store")
-            ctx.ob("the copied value is the request's no_response option", chain(n.value) == req + ".opt.no_response", fi, n)
-            ctx.ob("a no_response value set by the handler is kept (copy only if unset)", any(t in cfg.dominators(nid) for t in unset), fi, n)
-        ctx.ob("an unset no_response is always filled from the request", bool(unset) and all(cfg.must_pass(t, {i for n in nr for i in _rn(cfg, n)}, to=rn_) for t in unset), fi, nr[0])
 
 
 # ---------------------------------------------------------------------------
@@ -741,44 +852,93 @@ FALLBACKS = {"needs_blockwise_assembly": "returns True (assemble, so that the la
              "add_observation": "returns without accepting the observation"}
 
 
-@R.clause("C09.f", "every call of Site._find_child_and_pathstripped_message handles KeyError by raising a 4.04 error (render paths) or by the documented fallback; the function raises nothing but KeyError; _expand_upa raises nothing but BadOption (4.02)")
-def f(ctx):
-    prog = ctx.prog
-    target = prog.func("resource.Site._find_child_and_pathstripped_message")
-    sites = []
+def _lookup_roots(prog, target):
+    """the functions of the confirmed tree from which the child lookup is reached: the ones that call it, and -- for a
+    call that sits in a new helper -- the confirmed functions calling that helper (the walker follows the helper)"""
+    from ..inline import baseline
+    base = baseline()
+    roots, sites = {}, []
+    todo = []
     for fi in prog.funcs.values():
         for c in calls_in(fi.node):
             if isinstance(c.func, ast.Attribute) and c.func.attr == target.name:
                 sites.append((fi, c))
+                todo.append((fi, 0))
+    seen = set()
+    while todo:
+        fi, d = todo.pop()
+        if fi.qn in seen:
+            continue
+        seen.add(fi.qn)
+        if fi.qn in base or d >= 3:
+            roots[fi.qn] = fi
+            continue
+        callers = [g for g in prog.funcs.values() if g is not fi and any((isinstance(c.func, ast.Attribute) and c.func.attr == fi.name) or (isinstance(c.func, ast.Name) and c.func.id == fi.name) for c in calls_in(g.node))]
+        if not callers:
+            roots[fi.qn] = fi
+        for g in callers:
+            todo.append((g, d + 1))
+    return list(roots.values()), sites
+
+
+@R.clause("C09.f", "every call of Site._find_child_and_pathstripped_message handles KeyError by raising a 4.04 error (render paths) or by the documented fallback; the function raises nothing but KeyError; _expand_upa raises nothing but BadOption (4.02)")
+def f(ctx):
+    prog = ctx.prog
+    target = prog.func("resource.Site._find_child_and_pathstripped_message")
+    roots, sites = _lookup_roots(prog, target)
     ctx.floor("call sites of _find_child_and_pathstripped_message", len(sites), 4)
     c404 = _num(RESPONSE_CODES["NOT_FOUND"])
+    obs = _Obs(ctx)
+    is_lookup = lambda e: isinstance(e.func, ast.Attribute) and e.func.attr == target.name
+    handled = {}  # id(call node) -> event, for lookups whose KeyError continues in some handler
+    seen_sites = {}
+    sf = prog.func("resource.Site.render_to_pipe")
+    sp = params(sf)
+    n_deleg = 0
+    for fi in sorted(roots, key=lambda x: x.qn):
+        # every path of the function, where "a call raises" means: it raises KeyError (the one exception the lookup has)
+        W = Walker(prog, implicit_cls="KeyError")
+        for o in W.run(fi):
+            lk = o.calls(is_lookup)
+            for j, e in lk:
+                seen_sites[id(e.node)] = e
+                if not e.partial:
+                    continue
+                handled[id(e.node)] = e
+                # the lookup failed on this path
+                after = [x for x in o.events[j + 1:] if x.kind in ("call", "await") and not x.pure and not (x.kind == "call" and is_log_call(x.node))]
+                if fi.name in FALLBACKS and o.kind == "return":
+                    if fi.name == "needs_blockwise_assembly":
+                        ok = isinstance(o.value, ast.Constant) and o.value.value is True
+                    else:
+                        ok = isinstance(o.value, ast.Constant) and o.value.value is None and not after
+                    obs.add("documented fallback for an unknown path in %s: %s" % (fi.name, FALLBACKS[fi.name]), ok, e.fi, e.node, detail="path [%s] returns %s" % (o.describe(), K(o.value)))
+                    continue
+                q = W._exc_class(o.value) if o.kind == "raise" else None
+                ok = q is not None and q in prog.classes and prog.is_subclass(q, "aiocoap.error.RenderableError") and _class_code(prog, q) == c404
+                rs = [x for x in o.events[j + 1:] if x.kind == "raise"]
+                pin = rs[-1] if rs else e
+                obs.add("an unknown path is answered with a 4.04 error on every path of the handler", ok, pin.fi, pin.node, detail="path [%s] ends with %s" % (o.describe(), ("raise %s" % q) if o.kind == "raise" else "return"))
+            if fi is sf:
+                # Site.render_to_pipe expands the abbreviation before the lookup and delegates to the child
+                for j, e in lk:
+                    ex = [jj for jj, x in o.calls(lambda x: W.cls_of(x.func) == "aiocoap.resource._expand_upa", partial=False) if jj < j]
+                    obs.add("Site.render_to_pipe expands Uri-Path-Abbrev before the path lookup", bool(ex), e.fi, e.node)
+                if o.kind == "return" and lk and not any(e.partial for _, e in lk):
+                    found = [e.expr for _, e in lk]
+                    dl = [x for _, x in o.calls(lambda x: isinstance(x.func, ast.Attribute) and x.func.attr == "render_to_pipe" and x.awaited, partial=False)]
+                    okd = bool(dl)
+                    for x in dl:
+                        r = x.func.value
+                        okd = okd and isinstance(r, ast.Subscript) and isinstance(r.slice, ast.Constant) and r.slice.value == 0 and any(r.value is y for y in found) and len(x.args) == 1 and chain(x.args[0]) == sp[0]
+                    n_deleg += 1 if okd else 0
+                    obs.add("a known path is delegated to the child found by the lookup, on the same pipe", okd, dl[0].fi if dl else sf, dl[0].node if dl else None, construct=None if dl else "Site.render_to_pipe")
     for fi, c in sites:
-        cfg = cfg_of(fi)
-        tr = _enclosing_try(cfg, c, fi.node)
-        hs = [h for h in tr.handlers if _handler_catches(prog, fi, h, "KeyError")] if tr is not None else []
-        if not ctx.ob("an unknown path (KeyError) is handled at the call site", bool(hs), fi, c):
-            continue
-        h = hs[0]  # the first matching handler takes the exception
-        hn = _rn(cfg, h)
-        inside = cfg.reach(set(hn), skip_labels=("exc",), include_src=True)
-        rs = [n for n in cfg.nodes if n.kind == "raise" and n.id in inside and any(n.ast is x for x in ast.walk(h))]
-        falls = cfg.exit in inside
-        if fi.name in FALLBACKS and not rs:
-            if fi.name == "needs_blockwise_assembly":
-                rets = [n for n in cfg.nodes if n.kind == "return" and n.id in inside]
-                ok = bool(rets) and all(isinstance(n.ast.value, ast.Constant) and n.ast.value.value is True for n in rets) and all(cfg.must_pass(i, {n.id for n in rets}) for i in hn)
-            else:
-                calls = [x for x in ast.walk(h) if isinstance(x, ast.Call) and not is_log_call(x)]
-                rets = [n for n in cfg.nodes if n.kind == "return" and n.id in inside and n.ast.value is not None and not (isinstance(n.ast.value, ast.Constant) and n.ast.value.value is None)]
-                ok = not calls and not rets and falls
-            ctx.ob("documented fallback for an unknown path in %s: %s" % (fi.name, FALLBACKS[fi.name]), ok, fi, h, construct="except KeyError in %s" % fi.name)
-            continue
-        okc = bool(rs) and not falls
-        for n in rs:
-            q = _raise_class(ctx, fi, n.ast)
-            okc = okc and q is not None and q in prog.classes and prog.is_subclass(q, "aiocoap.error.RenderableError") and _class_code(prog, q) == c404
-        ctx.ob("an unknown path is answered with a 4.04 error on every path of the handler", okc, fi, rs[0].ast if rs else h, construct=None if rs else "except KeyError in %s" % fi.name)
-        # the child is only used when the lookup succeeded
+        e = seen_sites.get(id(c))
+        ctx.need(e is not None, "the lookup in %s is not reached from a function of the confirmed tree" % fi.short)
+        obs.add("an unknown path (KeyError) is handled at the call site", id(c) in handled, fi, c)
+    obs.add("a known path is delegated to the child found by the lookup, on the same pipe", n_deleg >= 1, sf, None, construct="Site.render_to_pipe: delegation")
+    obs.flush()
     EA = EscapeAnalysis(prog)
     esc = EA.escapes(target, selfcls="aiocoap.resource.Site")
     bad = sorted({e_.cls for e_ in esc} - {"KeyError"})
@@ -799,24 +959,33 @@ def f(ctx):
             ctx.ob("a failed table lookup in _expand_upa (KeyError) is converted, not propagated", bool(hs), ux, sub)
     ctx.ob("error.BadOption renders as 4.02", _class_code(prog, "aiocoap.error.BadOption") == _num(RESPONSE_CODES["BAD_OPTION"]) and prog.is_subclass("aiocoap.error.BadOption", "aiocoap.error.RenderableError"), None, None, construct="class error.BadOption")
     ctx.extra["escape_implicit_sites"] = EA.implicit_sites + EA2.implicit_sites
-    # Site.render_to_pipe expands the abbreviation before the lookup and delegates to the child
-    sf = prog.func("resource.Site.render_to_pipe")
-    sp = params(sf)
-    scfg = cfg_of(sf)
-    ex = [c for c, b in find("_expand_upa($x)", sf.node)]
-    lk = [c for fi, c in sites if fi is sf]
-    ctx.ob("Site.render_to_pipe expands Uri-Path-Abbrev before the path lookup", bool(ex) and bool(lk) and all(any(scfg.dominates(i, _rn(scfg, l)[0]) for e_ in ex for i in _rn(scfg, e_)) for l in lk), sf, ex[0] if ex else sf.node, construct=None if ex else "Site.render_to_pipe")
-    dl = [n for n in walk_no_nested(sf.node) if isinstance(n, ast.Await) and isinstance(n.value, ast.Call) and isinstance(n.value.func, ast.Attribute) and n.value.func.attr == "render_to_pipe"]
-    okd = bool(dl) and bool(lk)
-    for aw in dl:
-        an = _n1(ctx, scfg, aw, "child delegation")
-        recv, rp = _value_at(scfg, sf.node, aw.value.func.value, an)
-        okd = okd and rp == (0,) and any(recv is l for l in lk) and len(aw.value.args) == 1 and isinstance(aw.value.args[0], ast.Name) and aw.value.args[0].id == sp[0]
-    ctx.ob("a known path is delegated to the child found by the lookup, on the same pipe", okd, sf, dl[0] if dl else sf.node, construct=None if dl else "Site.render_to_pipe")
 
 
 # ---------------------------------------------------------------------------
 # C09.g
+
+
+def _is_render_call(v):
+    """v (resolved) is `self.render(...)`, possibly awaited"""
+    if isinstance(v, ast.Await):
+        v = v.value
+    return isinstance(v, ast.Call) and chain(v.func) == "self.render"
+
+
+def _render_outcome(W, v):
+    """v is the awaited outcome of self.render -- directly, or through a call that is handed a callable (lambda, nested
+    def, functools.partial, default-argument lambda) whose invocation evaluates self.render(...) (the Block2 cache)"""
+    if not (isinstance(v, ast.Await) and isinstance(v.value, ast.Call)):
+        return False
+    call = v.value
+    if _is_render_call(call):
+        return True
+    for a_ in list(call.args) + [k.value for k in call.keywords]:
+        if isinstance(a_, ast.Lambda) or (isinstance(a_, ast.Name) and hasattr(a_, "_closure")) or (isinstance(a_, ast.Call) and chain(a_.func) in ("functools.partial", "partial")):
+            rs = W.apply_callable(a_)
+            if rs and all(r is not None and _is_render_call(r) for r in rs):
+                return True
+    return False
 
 
 @R.clause("C09.g", "interfaces.Resource._render_to_pipe adds exactly one response per normal path, final, and it is the result of rendering")
@@ -825,50 +994,30 @@ def g(ctx):
     fi = prog.func("interfaces.Resource._render_to_pipe")
     p = params(fi)
     ctx.need(len(p) == 1 and not writes_to_name(fi.node, p[0]), "Resource._render_to_pipe signature changed")
-    cfg = cfg_of(fi)
-    adds = _adds(cfg, fi.node, p[0])
-    ctx.floor("add_response sites in Resource._render_to_pipe", len(adds), 1)
-    addn = {A.nid for A in adds}
-    w = _witness(cfg, {cfg.entry}, addn, cfg.exit, skip=("exc",))
-    ctx.ob("every normal path of the plain render adds a response", w is None, fi, w if w is not None else adds[0].call)
-    for A in adds:
-        ctx.ob("the response of a plain render is final", A.kind == "final", fi, A.call)
-        ctx.ob("a plain render adds at most one response", not (cfg.reach({A.nid}, skip_labels=("exc",)) & addn), fi, A.call)
-        srcs = []
-        if isinstance(A.resp, ast.Name):
-            ws, live = _reaching(cfg, fi.node, A.resp.id, A.nid)
-            srcs = [_bound(w_, A.resp.id) for _, w_ in ws] + ([(None, None)] if live else [])
-        else:
-            srcs = [(A.resp, ())]
-        ok = bool(srcs)
-        for v, pth in srcs:
-            good = False
-            if v is not None and pth == () and isinstance(v, ast.Await) and isinstance(v.value, ast.Call):
-                call = v.value
-                if match("self.render($r)", call) is not None:
-                    good = True
-                else:
-                    for a_ in list(call.args) + [k.value for k in call.keywords]:
-                        if isinstance(a_, ast.Lambda) and any(match("self.render($r)", x) is not None for x in ast.walk(a_.body)):
-                            good = True
-            ok = ok and good
-        ctx.ob("the response added is the outcome of self.render (directly or through the Block2 cache)", ok, fi, A.call)
+    W = Walker(prog)
+    outs = [o for o in W.run(fi) if o.kind == "return"]
+    ctx.need(bool(outs), "Resource._render_to_pipe has no normal path")
+    if W.followed:
+        ctx.note("helpers followed from Resource._render_to_pipe: %s" % ", ".join(W.followed))
+    obs = _Obs(ctx)
+    n_add = 0
+    for o in outs:
+        adds = [e for _, e in _method_calls(o, "add_response", lambda r: chain(r) == p[0])]
+        full = [e for e in adds if not e.partial]
+        if not obs.add("every normal path of the plain render adds a response", bool(full), fi, None, construct="Resource._render_to_pipe", detail="path [%s]" % o.describe()):
+            continue
+        n_add += 1
+        obs.add("a plain render adds at most one response", len(adds) == 1, adds[-1].fi, adds[-1].node, detail="%d add_response calls on the path [%s]" % (len(adds), o.describe()))
+        for e in full:
+            obs.add("the response of a plain render is final", o.truth(_last_arg(e)) is True, e.fi, e.node)
+            v = e.arg("response", 0)
+            obs.add("the response added is the outcome of self.render (directly or through the Block2 cache)", v is not None and _render_outcome(W, v), e.fi, e.node, detail="adds %s on the path [%s]" % (K(v), o.describe()))
+    obs.flush()
+    ctx.floor("add_response sites in Resource._render_to_pipe", n_add, 1)
 
 
 # ---------------------------------------------------------------------------
 # C09.h
-
-
-def _truth_nodes(cfg, L, truth):
-    while isinstance(L, ast.UnaryOp) and isinstance(L.op, ast.Not):
-        L = L.operand
-        truth = not truth
-    out = set()
-    for n in cfg.nodes:
-        if n.kind in ("T", "F") and cfg.is_reachable(n.id) and n.ast is not None and same(n.ast, L):
-            if (n.kind == "T") == truth:
-                out.add(n.id)
-    return out
 
 
 @R.clause("C09.h", "TokenManager.process_request.on_event stamps the request's token and remote.as_response_address() on every outgoing message before send_message, sends every response event, and stays registered exactly while events are not final")
@@ -880,77 +1029,185 @@ def h(ctx):
     ctx.need(len(op) == 1 and len(ep) == 1, "process_request / on_event signature changed")
     req, ev = op[0], ep[0]
     ctx.need(not writes_to_name(outer.node, req) and _closure_ref(fi.node, req, req) and not writes_to_name(fi.node, ev), "request or event rebound")
-    cfg = cfg_of(fi)
-    sends = [c for c, _ in find("self.token_interface.send_message($*a, $**k)", fi.node)]
-    ctx.floor("send_message calls in on_event", len(sends), 1)
-    is_msg = lambda e_, at: chain(_value_at(cfg, fi.node, e_, at)[0]) == ev + ".message"
-    present = _none_nodes(cfg, is_msg, False)
-    absent = _none_nodes(cfg, is_msg, True)
-    ctx.need(present and absent, "on_event does not branch on `ev.message is None`")
-    sn = set()
-    for c in sends:
-        cn = _n1(ctx, cfg, c, "send_message")
-        sn.add(cn)
-        m = _kw(c, "message", 0)
-        ctx.need(isinstance(m, ast.Name), "message argument is not a local")
-        ctx.ob("what is sent is the event's message", is_msg(m, cn) and any(t in cfg.dominators(cn) for t in present), fi, c)
-        mw = [x for x, _ in _reaching(cfg, fi.node, m.id, cn)[0]]
-        for attr, want, text in (("token", "%s.token" % req, "the request's token"), ("remote", "%s.remote.as_response_address()" % req, "the request's remote as response address")):
-            sts = [n for n in walk_no_nested(fi.node) if isinstance(n, (ast.Assign, ast.AugAssign, ast.AnnAssign)) and any(chain(t) == "%s.%s" % (m.id, attr) for t in (n.targets if isinstance(n, ast.Assign) else [n.target]))]
-            good = [n for n in sts if isinstance(n, ast.Assign) and match(want, n.value) is not None and any(cfg.dominates(i, cn) for i in _rn(cfg, n))
-                    and all([x for x, _ in _reaching(cfg, fi.node, m.id, i)[0]] == mw for i in _rn(cfg, n))]
-            bad = [n for n in sts if n not in good and any(cn in cfg.reach({i}) for i in _rn(cfg, n))]
-            late = [n for n in bad if any(cfg.dominates(g_i, i) for g_ in good for g_i in _rn(cfg, g_) for i in _rn(cfg, n))]
-            ctx.ob("every outgoing response carries %s" % text, bool(good) and not [n for n in bad if n in late or not good], fi, c if not bad else bad[0],
-                   detail="%d dominating store(s) of .%s" % (len(good), attr))
-    ctx.ob("every response event is handed to the token interface", all(cfg.must_pass(t, sn) for t in present), fi, sends[0])
-    # registration discipline
-    last = ast.parse("%s.is_last" % ev, mode="eval").body
-    notlast, islast = _truth_nodes(cfg, last, False), _truth_nodes(cfg, last, True)
-    rets = [n for n in cfg.nodes if n.kind == "return" and cfg.is_reachable(n.id)]
-    want = Normalizer().dnf(ast.parse("not %s.is_last" % ev, mode="eval").body)
-    exprs = []
-    for n in rets:
-        v = n.ast.value
-        if v is None or isinstance(v, ast.Constant):
-            continue
-        try:
-            exprs.append((n, Normalizer(env=norm.local_env(fi.node)).dnf(v) == want))
-        except norm.NormError:
-            exprs.append((n, False))
-    truthy = {n.id for n in rets if isinstance(n.ast.value, ast.Constant) and n.ast.value.value}
-    computed = {n.id for n, ok in exprs if ok}
-    for n, ok in exprs:
-        ctx.ob("a computed return value of the handler is `not is_last`", ok, fi, n.ast)
-    for n in rets:
-        if n.id in truthy:
-            ctx.ob("the handler asks to stay registered only for non-final events", any(t in cfg.dominators(n.id) for t in notlast), fi, n.ast)
-    keep = truthy | computed
-    if notlast:
-        ok_keep = bool(keep) and all(cfg.must_pass(t, keep) for t in notlast)
-    else:
-        ok_keep = bool(computed) and cfg.must_pass(cfg.entry, computed)
-    anchor = [n.ast for n in rets if n.id in keep]
-    ctx.ob("after a non-final event (a notification) the handler stays registered", ok_keep, fi, anchor[0] if anchor else sends[0])
+    W = Walker(prog)
+    outs = W.run(fi)
+    ctx.need(bool(outs), "on_event has no path")
+    if W.followed:
+        ctx.note("helpers followed from on_event: %s" % ", ".join(W.followed))
+    obs = _Obs(ctx)
+    is_msg = lambda v: chain(v) == ev + ".message"
+    sends = lambda o, partial=None: _method_calls(o, "send_message", lambda r: chain(r) == "self.token_interface", partial)
+    # the stamps: (attribute, what the value must be, text).  A stamp is the *last* store to <message>.<attribute> that
+    # precedes the send on the path -- whichever local, helper parameter or alias the message and the request go by.
+    stamps = (("token", "%s.token" % req, "the request's token"), ("remote", "%s.remote.as_response_address()" % req, "the request's remote as response address"))
+    n_sends = 0
+    for o in outs:
+        n = o.is_none(is_msg)
+        ctx.need(n is not None, "on_event has a path that does not decide `%s.message is None` (%s)" % (ev, o.describe()))
+        ss = sends(o)
+        for i, s in ss:
+            n_sends += 1
+            m = s.arg("message", 0)
+            obs.add("what is sent is the event's message", m is not None and is_msg(m) and n is False, s.fi, s.node, detail="sends %s on the path [%s]" % (K(m), o.describe()))
+            if m is None:
+                continue
+            km = K(m)
+            for attr, want, text in stamps:
+                st = [e for j, e in o.stores(lambda e: isinstance(e.target, ast.Attribute) and e.target.attr == attr and K(e.target.value) == km) if j < i]
+                good = bool(st) and st[-1].kind == "store" and st[-1].value is not None and match(want, st[-1].value) is not None
+                pin = st[-1] if st and not good else s
+                obs.add("every outgoing response carries %s" % text, good, pin.fi, pin.node,
+                        detail=("%s.%s is last set to %s before the send" % (km, attr, K(st[-1].value))) if st else "no store to %s.%s precedes the send on the path [%s]" % (km, attr, o.describe()))
+        if n is False:
+            full = [s for _, s in ss if not s.partial]
+            fi_, node_ = (full[0].fi, full[0].node) if full else (fi, fi.node)
+            obs.add("every response event is handed to the token interface", o.kind == "return" and len(full) >= 1, fi_, None if node_ is fi.node else node_,
+                    construct="on_event" if node_ is fi.node else None, detail="path [%s]" % o.describe())
+        # registration discipline: the value returned is true exactly when the event is not final
+        if o.kind == "return":
+            rfi, rnode = getattr(o.value, "_fi", fi), origin(o.value)
+            if isinstance(rnode, (ast.FunctionDef, ast.AsyncFunctionDef)):
+                ds = o.decided(lambda x: chain(x) == ev + ".is_last")
+                rfi, rnode = (ds[-1].fi, ds[-1].node) if ds else (fi, None)
+            else:
+                rnode = _stmt_of(cfg_of(rfi), rnode)
+            obs.add("the handler stays registered exactly while events are not final (returns a true value iff not is_last)", W.equiv(o, o.value, "not %s.is_last" % ev), rfi, rnode,
+                    construct=None if rnode is not None else "on_event: value returned", detail="returns %s on the path [%s]" % (K(o.value), o.describe()))
+    obs.flush()
+    ctx.floor("send_message calls in on_event", n_sends, 1)
     # and it is this handler that is registered on the pipe that gets rendered (see C08.e for the stopper)
-    ocfg = cfg_of(outer)
-    regs = [c for c, b in find("$p.on_event($h)", outer.node) if isinstance(b["h"], ast.Name) and b["h"].id == fi.name]
-    ctx.ob("the handler is registered on the request's pipe on every path", bool(regs) and ocfg.must_pass(ocfg.entry, {i for c in regs for i in _rn(ocfg, c)}), outer, regs[0] if regs else outer.node, construct=None if regs else "process_request")
+    WO = Walker(prog)
+    for o in WO.run(outer):
+        if o.kind != "return":
+            continue
+        regs = [e for _, e in _method_calls(o, "on_event", lambda r: True, partial=False) if e.args and isinstance(e.args[0], ast.Name) and getattr(e.args[0], "_closure", (None,))[0] is fi.node]
+        obs.add("the handler is registered on the request's pipe on every path", bool(regs), outer, regs[0].node if regs else None, construct=None if regs else "process_request", detail="path [%s]" % o.describe())
+    obs.flush()
 
 
 # ---------------------------------------------------------------------------
 # C09.i
 
+_CBS = "self._event_callbacks"
 
-def _ended_nodes(cfg, ended):
-    out = set()
-    for n in cfg.nodes:
-        e_ = n.ast
-        if n.kind in ("T", "F") and cfg.is_reachable(n.id) and isinstance(e_, ast.Compare) and len(e_.ops) == 1 and chain(e_.left) == "self._event_callbacks" \
-                and isinstance(e_.comparators[0], ast.Constant) and e_.comparators[0].value is False and isinstance(e_.ops[0], (ast.Is, ast.IsNot, ast.Eq, ast.NotEq)):
-            val = (n.kind == "T") == isinstance(e_.ops[0], (ast.Is, ast.Eq))
-            if val == ended:
-                out.add(n.id)
+
+def _is_cbs(v):
+    return chain(v) == _CBS
+
+
+def _from_cbs(v):
+    """v iterates a snapshot of (or the very) callback table: the field itself, a slice, list()/tuple()/reversed()/
+    sorted() of it, .copy()"""
+    for _ in range(6):
+        if _is_cbs(v):
+            return True
+        if isinstance(v, ast.Subscript) and isinstance(v.slice, ast.Slice):
+            v = v.value
+        elif isinstance(v, ast.Call) and chain(v.func) in ("list", "tuple", "reversed", "sorted") and len(v.args) == 1 and not v.keywords:
+            v = v.args[0]
+        elif isinstance(v, ast.Call) and isinstance(v.func, ast.Attribute) and v.func.attr == "copy" and not v.args:
+            v = v.func.value
+        else:
+            return False
+    return False
+
+
+def _entry_of_callback(f):
+    """f (resolved callee of a call) is component 0 of an element of the callback table -> the element (registration
+    entry) expression, else None.  `for cb, _ in T`, `for entry in T: cb = entry[0]`, `for i, (cb, _) in enumerate(T)`
+    and comprehensions all resolve to the same shape."""
+    if not (isinstance(f, ast.Subscript) and isinstance(f.slice, ast.Constant) and f.slice.value == 0):
+        return None
+    el = f.value
+    if isinstance(el, ast.Call) and hasattr(el, "_elem_of") and _from_cbs(el._elem_of):
+        return el
+    if isinstance(el, ast.Subscript) and isinstance(el.slice, ast.Constant) and el.slice.value == 1:
+        en = el.value
+        if isinstance(en, ast.Call) and hasattr(en, "_elem_of"):
+            it = en._elem_of
+            if isinstance(it, ast.Call) and chain(it.func) == "enumerate" and it.args and _from_cbs(it.args[0]):
+                return el
+    return None
+
+
+def _same_entry(arg, entry, arity):
+    """arg denotes the registration entry: the element itself or a tuple rebuilt from all of its components"""
+    if K(arg) == K(entry):
+        return True
+    if isinstance(arg, ast.Tuple) and arity is not None and len(arg.elts) == arity:
+        return all(isinstance(x, ast.Subscript) and isinstance(x.slice, ast.Constant) and x.slice.value == j and K(x.value) == K(entry) for j, x in enumerate(arg.elts))
+    return False
+
+
+def _filter_drops(value, entry):
+    """value (what is stored into the table) is the table filtered by identity / inequality against `entry`:
+    [x for x in <table> if x is not entry], [(cb, i) for (cb, i) in <table> if cb is not entry[0]], list(x for ...) --
+    i.e. the store removes that registration (and nothing else)"""
+    comp = value
+    if isinstance(comp, ast.Call) and chain(comp.func) in ("list", "tuple") and len(comp.args) == 1 and not comp.keywords:
+        comp = comp.args[0]
+    if not isinstance(comp, (ast.ListComp, ast.GeneratorExp)) or len(comp.generators) != 1:
+        return False
+    g_ = comp.generators[0]
+    if not _from_cbs(g_.iter) or len(g_.ifs) != 1 or g_.is_async:
+        return False
+    cond = g_.ifs[0]
+    pol = True
+    while isinstance(cond, ast.UnaryOp) and isinstance(cond.op, ast.Not):
+        cond, pol = cond.operand, not pol
+    if not (isinstance(cond, ast.Compare) and len(cond.ops) == 1):
+        return False
+    neg = isinstance(cond.ops[0], (ast.IsNot, ast.NotEq))
+    if not (neg or isinstance(cond.ops[0], (ast.Is, ast.Eq))) or (neg != pol):
+        return False
+
+    def elem_part(x):
+        """x is the comprehension's element (-> ()) or a constant component of it (-> (i,)), else None"""
+        if isinstance(x, ast.Call) and hasattr(x, "_elem_of") and x._elem_of is g_.iter:
+            return ()
+        if isinstance(x, ast.Subscript) and isinstance(x.slice, ast.Constant) and isinstance(x.value, ast.Call) and hasattr(x.value, "_elem_of") and x.value._elem_of is g_.iter:
+            return (x.slice.value,)
+        return None
+
+    def entry_part(x):
+        if K(x) == K(entry):
+            return ()
+        if isinstance(x, ast.Subscript) and isinstance(x.slice, ast.Constant) and K(x.value) == K(entry):
+            return (x.slice.value,)
+        return None
+
+    l, r = cond.left, cond.comparators[0]
+    ok = False
+    for a_, b_ in ((l, r), (r, l)):
+        pa, pb = elem_part(a_), entry_part(b_)
+        # comparing whole entries, or their callbacks (component 0: the callback identifies the registration)
+        if pa is not None and pb is not None and pa == pb and pa in ((), (0,)):
+            ok = True
+    if not ok:
+        return False
+    # what is kept is the element itself (or the tuple rebuilt from all its components)
+    e0 = comp.elt
+    if elem_part(e0) == ():
+        return True
+    return isinstance(e0, ast.Tuple) and len(e0.elts) >= 2 and all(elem_part(x) == (j,) for j, x in enumerate(e0.elts))
+
+
+def _on_fresh_container(e):
+    """the call event is a method call on a container literal / comprehension / list()-dict()-set() object built on this
+    very path (`remaining = []; remaining.append(x)`), or the construction of one: it runs no code of the package"""
+    def fresh(v):
+        return isinstance(v, (ast.List, ast.Dict, ast.Set, ast.Tuple, ast.ListComp, ast.DictComp, ast.SetComp)) or \
+            (isinstance(v, ast.Call) and chain(v.func) in ("list", "dict", "set", "tuple", "collections.deque", "deque") and all(fresh(a_) for a_ in v.args) and not v.keywords)
+    return isinstance(e.func, ast.Attribute) and fresh(e.func.value)
+
+
+def _ended_decisions(o):
+    """[(Dec, ended?)] decisions of the form `self._event_callbacks is False` on the outcome, in path order"""
+    out = []
+    for dcs in o.decisions:
+        t = const_test(dcs.expr, False)
+        if t is not None and _is_cbs(t[0]):
+            out.append((dcs, dcs.val == t[1]))
     return out
 
 
@@ -960,64 +1217,127 @@ def i(ctx):
     fi = prog.func("pipe.Pipe._add_event")
     p = params(fi)
     ctx.need(len(p) == 1 and not writes_to_name(fi.node, p[0]), "_add_event signature changed")
-    cfg = cfg_of(fi)
-    deliveries = [c for c in calls_in(fi.node) if isinstance(c.func, ast.Name) and len(c.args) == 1 and isinstance(c.args[0], ast.Name) and c.args[0].id == p[0] and not c.keywords]
-    ctx.floor("callback invocations in _add_event", len(deliveries), 1)
-    alive, ended = _ended_nodes(cfg, False), _ended_nodes(cfg, True)
-    dn = {j for c in deliveries for j in _rn(cfg, c)}
-    for c in deliveries:
-        cn = _n1(ctx, cfg, c, "delivery")
-        ctx.ob("an event is delivered only while the pipe has not ended", any(t in cfg.dominators(cn) for t in alive), fi, c)
-    top = {t for t in ended if not any(d in cfg.dominators(t) for d in dn)}
-    ends = {j for c, _ in find("self._end()", fi.node) for j in _rn(cfg, c)}
-    ctx.ob("an event added after the end reaches no callback and ends nothing", bool(top) and not (cfg.reach(top) & (dn | ends)), fi, deliveries[0], construct="if self._event_callbacks is False: ... return")
-    # declining handlers are removed
-    rem = [n for k, n in stores_to(fi.node, "self._event_callbacks", nested=False) if k == "remove"]
-    okr = False
-    for n in rem:
-        nid = _n1(ctx, cfg, n, "removal")
-        for e_, pol, g_ in cfg.guards(nid):
-            if isinstance(e_, ast.Name) and not pol:
-                v, vp = _value_at(cfg, fi.node, e_, g_)
-                if any(v is c for c in deliveries):
-                    okr = True
-    ctx.ob("a handler that returns a false value is removed from the callbacks", okr, fi, rem[0] if rem else deliveries[0])
-    # no interest left -> end
-    oke = False
-    endcalls = [c for c, _ in find("self._end()", fi.node)]
-    def res(e_, at):
-        return _value_at(cfg, fi.node, e_, at)[0] if isinstance(e_, ast.Name) else e_
-    for c in endcalls:
-        cn = _n1(ctx, cfg, c, "_end call")
-        gs = [(res(e_, g_), pol) for e_, pol, g_ in cfg.guards(cn) if not isinstance(e_, ast.stmt)]
-        if any(match("self._any_interest()", e_) is not None and not pol for e_, pol in gs) and any(t in cfg.dominators(cn) for t in alive):
-            tests = {n.id for n in cfg.nodes if n.kind == "test" and cfg.is_reachable(n.id) and match("self._any_interest()", res(n.ast, n.id)) is not None}
-            loopF = {n.id for n in cfg.nodes if n.kind == "F" and isinstance(n.ast, ast.For) and cfg.is_reachable(n.id)}
-            oke = bool(loopF) and all(cfg.must_pass(f_, tests) for f_ in loopF)
-    ctx.ob("after delivery the pipe ends as soon as no interested handler remains", oke, fi, endcalls[0] if endcalls else deliveries[0])
+    # arity of a registration entry: what the append sites of the class put into the table
+    ci = prog.cls("pipe.Pipe")
+    ar = set()
+    for mf in ci.methods.values():
+        for k_, n_ in stores_to(mf.node, _CBS, nested=False):
+            if k_ == "append" and isinstance(n_, ast.Call) and n_.args:
+                v_ = resolve_local(mf.node, n_.args[0])
+                ar.add(len(v_.elts) if isinstance(v_, ast.Tuple) else None)
+    arity = ar.pop() if len(ar) == 1 else None
+    W = Walker(prog, loop_bound=2)
+    outs = W.run(fi)
+    ctx.need(bool(outs), "_add_event has no path")
+    obs = _Obs(ctx)
+
+    def deliveries(o):
+        out = []
+        for j, e in o.calls():
+            en = _entry_of_callback(e.func)
+            if en is not None and len(e.args) == 1 and chain(e.args[0]) == p[0] and not e.kw:
+                out.append((j, e, en))
+        return out
+
+    n_del = n_late = n_rem = n_end = 0
+    for o in outs:
+        if o.kind != "return":
+            continue
+        ds = deliveries(o)
+        ended = _ended_decisions(o)
+        ends = [(j, e) for j, e in o.calls(lambda e: chain(e.func) == "self._end")]
+        first_side_effect = min([j for j, e, en in ds] + [j for j, e in ends] + [len(o.events)])
+        entry_tests = [(dcs, v) for dcs, v in ended if dcs.pos <= first_side_effect]
+        if entry_tests and entry_tests[0][1]:
+            # the pipe had ended when the event arrived
+            n_late += 1
+            pin = entry_tests[0][0]
+            obs.add("an event added after the end reaches no callback and ends nothing", not ds and not ends, pin.fi, _stmt_of(cfg_of(pin.fi), pin.node), construct="if self._event_callbacks is False: ... return")
+            continue
+        for j, e, en in ds:
+            n_del += 1
+            obs.add("an event is delivered only while the pipe has not ended", bool(entry_tests), e.fi, e.node)
+        # declining handlers are removed, the others stay
+        lost = False
+        for idx, (j, e, en) in enumerate(ds):
+            nxt = ds[idx + 1][0] if idx + 1 < len(ds) else len(o.events)
+            rem = [r for jr, r in _method_calls(o, "remove", _is_cbs) if j < jr < nxt and r.args and _same_entry(r.args[0], en, arity)]
+            rem += [r for jr, r in o.stores(lambda r: r.kind == "store" and _is_cbs(r.target)) if j < jr < nxt and _filter_drops(r.value, en)]
+            # any other change of the table in this window is outside the rule's vocabulary: refuse rather than guess
+            other = [r for jr, r in o.stores(lambda r: _is_cbs(r.target) or (isinstance(r.target, ast.Subscript) and _is_cbs(r.target.value))) if j < jr < nxt and r not in rem]
+            other += [r for jr, r in o.calls(lambda r: isinstance(r.func, ast.Attribute) and _is_cbs(r.func.value) and r.func.attr in ("pop", "clear", "discard", "insert", "append", "extend", "remove", "sort", "reverse")) if j < jr < nxt and r not in rem]
+            ctx.need(not other, "the callback table is modified after a delivery in a way the rule cannot interpret: %s" % (K(other[0].expr) if other and other[0].kind == "call" else (K(other[0].target) if other else "")))
+            keep = o.truth(e.expr)
+            if keep is True:
+                obs.add("a handler that asks to be kept is not removed", not rem, e.fi, e.node)
+                continue
+            # all interest was lost during the callback: the table is gone, nothing to remove, nothing more to do
+            gone = [dcs for dcs, v in ended if v and dcs.pos > j]
+            if gone and keep is False and idx == len(ds) - 1 and not [x for x in ends if x[0] > j]:
+                lost = True
+                continue
+            n_rem += 1 if rem else 0
+            obs.add("a handler that returns a false value is removed from the callbacks", keep is False and bool(rem), rem[0].fi if rem else e.fi, rem[0].node if rem else e.node,
+                    detail="path [%s]" % o.describe())
+        if lost:
+            continue
+        # no interest left -> end
+        last = ds[-1][0] if ds else -1
+        asks = [(j, e) for j, e in o.calls(lambda e: chain(e.func) == "self._any_interest") if j > last]
+        t = o.truth(asks[-1][1].expr) if asks else None
+        ended_after = [x for x in ends if asks and x[0] > asks[-1][0]]
+        if t is False:
+            n_end += 1
+        pin = ended_after[0][1] if ended_after else (asks[-1][1] if asks else (ds[-1][1] if ds else None))
+        obs.add("after delivery the pipe ends as soon as no interested handler remains", t is not None and (bool(ended_after) == (t is False)), pin.fi if pin else fi, pin.node if pin else None,
+                construct=None if pin else "Pipe._add_event", detail="path [%s]" % o.describe())
+    obs.add("a handler that returns a false value is removed from the callbacks", n_rem >= 1, fi, None, construct="Pipe._add_event: removal of declining handlers")
+    obs.add("after delivery the pipe ends as soon as no interested handler remains", n_end >= 1, fi, None, construct="Pipe._add_event: end without interest")
+    obs.add("an event added after the end reaches no callback and ends nothing", n_late >= 1, fi, None, construct="Pipe._add_event: events after the end")
+    obs.flush()
+    ctx.floor("callback invocations in _add_event", n_del, 1)
     # _end
     ef = prog.func("pipe.Pipe._end")
-    ecfg = cfg_of(ef)
+    WE = Walker(prog, loop_bound=2)
+    n_cb = 0
+    set_node = None
+    for o in WE.run(ef):
+        if o.kind != "return":
+            continue
+        sets = [(j, s) for j, s in o.stores(lambda s: s.kind == "store" and _is_cbs(s.target) and isinstance(s.value, ast.Constant) and s.value.value is False)]
+        if sets:
+            set_node = sets[0][1]
+        obs.add("_end marks the pipe as ended on every path", bool(sets), sets[0][1].fi if sets else ef, sets[0][1].node if sets else None, construct=None if sets else "Pipe._end")
+        for j, e in o.calls():
+            if _entry_of_callback(e.func) is not None and len(e.args) == 1:
+                n_cb += 1
+                obs.add("_end marks the pipe as ended before it delivers the final event (re-entrant adds are discarded)", any(js < j for js, s in sets), e.fi, e.node)
+    obs.flush()
+    ctx.floor("callback invocations in _end", n_cb, 1)
     is_field = lambda t: isinstance(t, ast.Attribute) and t.attr == "_event_callbacks"
     is_false = lambda v_: isinstance(v_, ast.Constant) and v_.value is False
-    sets = [n for k, n in stores_to(ef.node, "self._event_callbacks", nested=False) if k == "assign" and any(is_false(v_) for v_ in _assigned_to(n, is_field))]
-    cbs = [c for c in calls_in(ef.node) if isinstance(c.func, ast.Name) and len(c.args) == 1 and not is_log_call(c) and chain(c.func) not in ("list", "tuple")]
-    ctx.floor("callback invocations in _end", len(cbs), 1)
-    sn = {j for n in sets for j in _rn(ecfg, n)}
-    ctx.ob("_end marks the pipe as ended before it delivers the final event (re-entrant adds are discarded)", bool(sn) and all(any(ecfg.dominates(s, j) for s in sn) for c in cbs for j in _rn(ecfg, c)), ef, sets[0] if sets else cbs[0])
-    ctx.ob("_end marks the pipe as ended on every path", bool(sn) and ecfg.must_pass(ecfg.entry, sn), ef, sets[0] if sets else cbs[0])
     writers = field_writers(prog, "_event_callbacks", modules=["aiocoap.pipe"])
     falsers = [(f_, n) for f_, hits in writers.items() for k, n in hits if k == "assign" and any(is_false(v_) for v_ in _assigned_to(n, is_field))]
-    ctx.ob("only _end marks a pipe as ended", all(f_ == ef.short for f_, n in falsers) and bool(falsers), ef, sets[0] if sets else ef.node)
-    revive = [(f_, n) for f_, hits in writers.items() for k, n in hits if k == "assign" and f_ not in (ef.short, "pipe.Pipe.__init__", "pipe.Pipe._unregister_on_event")]
-    for f_, n in revive:
-        ctx.ob("an ended pipe is never revived", False, prog.func(f_), n)
+    ctx.ob("only _end marks a pipe as ended", all(f_ == ef.short for f_, n in falsers) and bool(falsers), ef, set_node.node if set_node is not None else ef.node)
+    # every other (re)binding of the table -- unregistering a handler, dropping a declining one by filtering -- happens
+    # only while the pipe is known not to have ended: on the path, a test `_event_callbacks is False` came out false and
+    # nothing that could end the pipe (an opaque call, an await, another store to the table) lies between test and store
     uf = prog.func("pipe.Pipe._unregister_on_event")
-    ucfg = cfg_of(uf)
-    ualive = _ended_nodes(ucfg, False)
-    for k, n in stores_to(uf.node, "self._event_callbacks", nested=False):
-        if k == "assign":
-            ctx.ob("unregistering a handler does not revive an ended pipe", any(t in ucfg.dominators(j) for t in ualive for j in _rn(ucfg, n)), uf, n)
+    rebinders = sorted({f_ for f_, hits in writers.items() for k, n in hits if k == "assign" and f_ not in (ef.short, "pipe.Pipe.__init__")} | {uf.short})
+    for f_ in rebinders:
+        rf = prog.func(f_)
+        WU = Walker(prog, loop_bound=2)
+        for o in WU.run(rf):
+            for j, s_ in o.stores(lambda s_: s_.kind == "store" and _is_cbs(s_.target) and not is_false(s_.value)):
+                fresh = False
+                for dcs, v in _ended_decisions(o):
+                    if v or dcs.pos > j:
+                        continue
+                    between = o.events[dcs.pos:j]
+                    if not any((x.kind == "await") or (x.kind == "call" and not x.pure and not is_log_call(x.node) and not _on_fresh_container(x)) or (x.kind in ("store", "del") and _is_cbs(x.target)) for x in between):
+                        fresh = True
+                obs.add("unregistering a handler does not revive an ended pipe" if rf is uf else "an ended pipe is never revived", fresh, s_.fi, s_.node, detail="path [%s]" % o.describe())
+    obs.flush()
 
 
 # ---------------------------------------------------------------------------
@@ -1029,20 +1349,26 @@ def j(ctx):
     prog = ctx.prog
     base = "aiocoap.error.ConstructionRenderableError"
     tm = prog.func("error.ConstructionRenderableError.to_message")
-    cfg = cfg_of(tm)
-    rets = [n for n in walk_no_nested(tm.node) if isinstance(n, ast.Return)]
-    ctx.need(len(rets) == 1 and rets[0].value is not None, "to_message has not exactly one return")
-    v, vp = _value_at(cfg, tm.node, rets[0].value, _n1(ctx, cfg, rets[0], "return"))
-    okm = not vp and isinstance(v, ast.Call) and _cls_of(ctx, tm, v.func) == "aiocoap.message.Message" and not v.args and sorted(k.arg or "**" for k in v.keywords) == ["code", "payload"]
-    ctx.ob("to_message builds a Message from code and payload only", okm, tm, rets[0])
-    if okm:
-        rid = _n1(ctx, cfg, rets[0], "return")
-        ctx.ob("the message's code is the class/instance attribute `code`", chain(_value_at(cfg, tm.node, _kw(v, "code"), rid)[0]) == "self.code", tm, rets[0])
-        pm = match("self.message.encode($*a)", _value_at(cfg, tm.node, _kw(v, "payload"), rid)[0])
-        enc = None
-        if pm is not None:
-            enc = "utf-8" if not pm["a"] else (pm["a"][0].value if len(pm["a"]) == 1 and isinstance(pm["a"][0], ast.Constant) else None)
-        ctx.ob("the message's payload is the UTF-8 encoding of the attribute `message`", isinstance(enc, str) and enc.lower().replace("-", "").replace("_", "") == "utf8", tm, rets[0])
+    W = Walker(prog)
+    obs = _Obs(ctx)
+    n_ret = 0
+    for o in W.run(tm):
+        rfi, rnode = getattr(o.value, "_fi", tm), _stmt_of(cfg_of(getattr(o.value, "_fi", tm)), origin(o.value)) if o.value is not None else tm.node
+        if isinstance(rnode, (ast.FunctionDef, ast.AsyncFunctionDef)):
+            rnode = None
+        if not obs.add("to_message returns a message on every path", o.kind == "return", rfi, rnode, construct=None if rnode is not None else "ConstructionRenderableError.to_message", detail="path [%s]" % o.describe()):
+            continue
+        n_ret += 1
+        # what the message is made of: constructor keywords and attribute stores up to the return are the same fact
+        fields = _message_fields(W, o, o.value)
+        okm = fields is not None and sorted(fields) == ["code", "payload"]
+        obs.add("to_message builds a Message from code and payload only", okm, rfi, rnode, detail="fields: %s" % (sorted(fields) if fields is not None else "not a Message(...) built here"))
+        if not okm:
+            continue
+        obs.add("the message's code is the class/instance attribute `code`", chain(fields["code"]) == "self.code", rfi, rnode)
+        obs.add("the message's payload is the UTF-8 encoding of the attribute `message`", _utf8_of(fields["payload"], "self.message"), rfi, rnode, detail="payload %s" % K(fields["payload"]))
+    obs.flush()
+    ctx.need(n_ret >= 1, "to_message has no returning path")
     bci = prog.cls("error.ConstructionRenderableError")
     ctx.ob("the default code of a ConstructionRenderableError is 5.00", _class_code(prog, base) == _num(RESPONSE_CODES["INTERNAL_SERVER_ERROR"]) and "code" in bci.attrs, None, None, construct="ConstructionRenderableError.code")
     ctx.ob("the default diagnostic payload is empty", "message" in bci.attrs and isinstance(bci.attrs["message"], ast.Constant) and bci.attrs["message"].value == "", None, None, construct="ConstructionRenderableError.message")
@@ -1114,30 +1440,167 @@ def l_shared(ctx):
     c17.c(ctx)
 
 
+class _NoEval(Exception):
+    pass
+
+
+def _ev(prog, e, leaf):
+    """the checker's own evaluation of a small integer/boolean expression with Python's semantics; leaf(e) gives the
+    value of an uninterpreted sub-expression (or raises _NoEval)"""
+    try:
+        return leaf(e)
+    except _NoEval:
+        pass
+    if isinstance(e, ast.Constant):
+        return e.value
+    if isinstance(e, ast.BoolOp):
+        v = None
+        for x in e.values:
+            v = _ev(prog, x, leaf)
+            if isinstance(e.op, ast.Or) and v:
+                return v
+            if isinstance(e.op, ast.And) and not v:
+                return v
+        return v
+    if isinstance(e, ast.UnaryOp):
+        v = _ev(prog, e.operand, leaf)
+        if isinstance(e.op, ast.Not):
+            return not v
+        if isinstance(e.op, ast.USub):
+            return -v
+        if isinstance(e.op, ast.Invert):
+            return ~v
+        if isinstance(e.op, ast.UAdd):
+            return +v
+    if isinstance(e, ast.IfExp):
+        return _ev(prog, e.body if _ev(prog, e.test, leaf) else e.orelse, leaf)
+    if isinstance(e, ast.BinOp):
+        l, r = _ev(prog, e.left, leaf), _ev(prog, e.right, leaf)
+        ops = {ast.Add: lambda a, b: a + b, ast.Sub: lambda a, b: a - b, ast.Mult: lambda a, b: a * b, ast.FloorDiv: lambda a, b: a // b, ast.Mod: lambda a, b: a % b,
+               ast.LShift: lambda a, b: a << b, ast.RShift: lambda a, b: a >> b, ast.BitAnd: lambda a, b: a & b, ast.BitOr: lambda a, b: a | b, ast.BitXor: lambda a, b: a ^ b,
+               ast.Pow: lambda a, b: a ** b if abs(b) < 64 else _raise()}
+        f = ops.get(type(e.op))
+        if f is None:
+            raise _NoEval(ast.unparse(e))
+        return f(l, r)
+    if isinstance(e, ast.Compare):
+        left = _ev(prog, e.left, leaf)
+        for op, rx in zip(e.ops, e.comparators):
+            right = _ev(prog, rx, leaf)
+            cmpf = {ast.Eq: lambda a, b: a == b, ast.NotEq: lambda a, b: a != b, ast.Lt: lambda a, b: a < b, ast.LtE: lambda a, b: a <= b, ast.Gt: lambda a, b: a > b,
+                    ast.GtE: lambda a, b: a >= b, ast.Is: lambda a, b: a is b, ast.IsNot: lambda a, b: a is not b, ast.In: lambda a, b: a in b, ast.NotIn: lambda a, b: a not in b}.get(type(op))
+            if cmpf is None:
+                raise _NoEval(ast.unparse(e))
+            if not cmpf(left, right):
+                return False
+            left = right
+        return True
+    if isinstance(e, (ast.Tuple, ast.List, ast.Set)):
+        return tuple(_ev(prog, x, leaf) for x in e.elts)
+    if isinstance(e, ast.Dict) and all(k is not None for k in e.keys):
+        return {_ev(prog, k, leaf): _ev(prog, v, leaf) for k, v in zip(e.keys, e.values)}
+    if isinstance(e, ast.Subscript):
+        return _ev(prog, e.value, leaf)[_ev(prog, e.slice, leaf)]
+    if isinstance(e, ast.Call) and isinstance(e.func, ast.Attribute) and e.func.attr == "get" and 1 <= len(e.args) <= 2 and not e.keywords:
+        d = _ev(prog, e.func.value, leaf)
+        if isinstance(d, dict):
+            return d.get(*[_ev(prog, a_, leaf) for a_ in e.args])
+    if isinstance(e, ast.Call) and chain(e.func) in ("bool", "int") and len(e.args) == 1 and not e.keywords:
+        v = _ev(prog, e.args[0], leaf)
+        return bool(v) if chain(e.func) == "bool" else int(v)
+    if isinstance(e, (ast.Name, ast.Attribute)):
+        # a module-level constant (table) of the module the expression was written in
+        fi = getattr(e, "_fi", None)
+        c = chain(e)
+        if fi is not None and c is not None and "." not in c:
+            try:
+                return _ev(prog, prog.module_const(fi.module.name, c), leaf)
+            except AnchorError:
+                pass
+    raise _NoEval(ast.unparse(e))
+
+
+def _raise():
+    raise _NoEval("exponent out of range")
+
+
 @R.clause("C09.m", "No-Response suppresses exactly the response's own class: the mask is bit (class - 1) (RFC 7967)")
 def m_mask(ctx):
     """'Exactly one final response ... unless No-Response ... suppress it'.  An independently written breaking change
-    re-parenthesised the mask to (1 << class) - 1, so a No-Response value aimed at 2.xx also swallowed 4.xx/5.xx."""
-    fi = ctx.prog.func("messagemanager.MessageManager.send_message")
-    m = params(fi)[0]
-    found = []
-    for n in walk_no_nested(fi.node):
-        if isinstance(n, ast.BinOp) and isinstance(n.op, ast.BitAnd):
-            sides = [n.left, n.right]
-            if any("no_response" in ast.unparse(s_) for s_ in sides):
-                mask = [s_ for s_ in sides if "no_response" not in ast.unparse(s_)]
-                if mask:
-                    found.append((n, mask[0]))
-    ctx.ob("send_message applies a No-Response mask", len(found) == 1, fi, found[0][0] if found else fi.node, construct="send_message: No-Response mask")
-    for n, mask in found:
-        N = Normalizer(env=norm.local_env(fi.node))
-        try:
-            got = N.poly(mask)
-            want = Normalizer().poly(ast.parse("2**(%s.code.class_ - 1)" % m, mode="eval").body)
-            ok = got == want
-        except NormError:
-            ok, got = False, None
-        ctx.ob("the mask is exactly 1 << (class - 1): 2 for 2.xx, 8 for 4.xx, 16 for 5.xx", ok, fi, n, detail="normal form %r" % (got,))
+    re-parenthesised the mask to (1 << class) - 1, so a No-Response value aimed at 2.xx also swallowed 4.xx/5.xx.
+
+    Decided semantically: every condition of send_message (on any path, resolved through locals and helpers) that
+    depends on both the message's No-Response option and its code class is evaluated by the checker for every option
+    value 0..63 / None and every response class 2, 4, 5; it must be true exactly when (value or 0) & (1 << (class-1))
+    is non-zero (or exactly when it is zero: the negated spelling).  Any spelling -- named temporaries, `!= 0` or
+    truthiness, shifts or powers, a lookup table -- with that truth table is accepted; none other is."""
+    prog = ctx.prog
+    fi = prog.func("messagemanager.MessageManager.send_message")
+    def mentions(e, attr):
+        return [n for n in ast.walk(e) if isinstance(n, ast.Attribute) and n.attr == attr]
+
+    conds = {}
+    try:
+        W = Walker(prog, max_outcomes=20000)
+        outs = W.run(fi)
+        ctx.need(bool(outs), "send_message has no path")
+        for o in outs:
+            for dcs in o.decisions:
+                if mentions(dcs.expr, "no_response") and mentions(dcs.expr, "class_"):
+                    conds.setdefault(K(dcs.expr), dcs)
+    except AnalysisError as ex:
+        # too many paths to enumerate: the atomic conditions of the function's own CFG, with single-assignment locals
+        # substituted (path-insensitive, enough to find and evaluate the condition)
+        ctx.note("send_message not walked path by path (%s); conditions taken from the CFG" % ex)
+        from ._kit_c09 import Dec, clone
+        env = norm.local_env(fi.node)
+
+        def subst(e, depth=0):
+            def fn(n):
+                if isinstance(n, ast.Name) and isinstance(n.ctx, ast.Load) and n.id in env and depth < 6:
+                    return subst(env[n.id], depth + 1)
+                return None
+            return clone(e, fn)
+        for nd in cfg_of(fi).nodes:
+            if nd.kind == "test" and isinstance(nd.ast, ast.expr):
+                e_ = subst(nd.ast)
+                for x in ast.walk(e_):
+                    x._fi = fi
+                if mentions(e_, "no_response") and mentions(e_, "class_"):
+                    conds.setdefault(K(e_), Dec(e_, True, K(e_), 0, nd.ast, fi))
+    pin = fi.node
+    ctx.ob("send_message applies a No-Response mask", bool(conds), fi, pin, construct="send_message: No-Response mask")
+    for k, dcs in sorted(conds.items()):
+        nrs = {K(n) for n in mentions(dcs.expr, "no_response")}
+        cls = {K(n) for n in mentions(dcs.expr, "class_")}
+        ctx.need(len(nrs) == 1 and len(cls) == 1, "the No-Response condition %s reads several options / classes" % k)
+        knr, kcl = nrs.pop(), cls.pop()
+        same = differ = True
+        bad = None
+        for c_ in (2, 4, 5):
+            for v_ in [None] + list(range(64)):
+                def leaf(e, v_=v_, c_=c_):
+                    if isinstance(e, ast.Attribute):
+                        ke = K(e)
+                        if ke == knr:
+                            return v_
+                        if ke == kcl:
+                            return c_
+                    raise _NoEval()
+                want = ((v_ or 0) & (1 << (c_ - 1))) != 0
+                try:
+                    got = bool(_ev(prog, dcs.expr, leaf))
+                except _NoEval as ex:
+                    raise AnalysisError("C09.m: cannot evaluate the No-Response condition %s (%s)" % (k, ex))
+                except (TypeError, ValueError, KeyError, IndexError, ZeroDivisionError) as ex:
+                    got = None
+                if got is not want:
+                    same = False
+                    bad = bad or (v_, c_, got)
+                if got is not (not want):
+                    differ = False
+        ctx.ob("the mask is exactly 1 << (class - 1): 2 for 2.xx, 8 for 4.xx, 16 for 5.xx", same or differ, dcs.fi, _stmt_of(cfg_of(dcs.fi), dcs.node),
+               detail=("condition %s is %r for No-Response=%r on a %d.xx response" % (k, bad[2], bad[0], bad[1])) if bad else None)
     from ..absdom import code_predicates
     ctx.ob("Code.class_ is the code's upper three bits", code_predicates(ctx.prog)["class_shift"] == 5, None, None, construct="Code.class_")
 
@@ -1209,3 +1672,25 @@ R.seed("C09.k", "aiocoap/tokenmanager.py", "        for (_, _r), (_, stopper) in
 
 R.seed("C09.l", F_RES, "        except KeyError:\n            raise error.NotFound()\n        else:\n            # FIXME consider carefully whether this switching-around is good.\n            # It probably is.\n            request.request = subrequest\n            return await child.render_to_pipe(request)", "            request.request = subrequest\n            return await child.render_to_pipe(request)\n        except KeyError:\n            raise error.NotFound()", "a KeyError raised by a handler is answered 4.04")
 R.seed("C09.m", "aiocoap/messagemanager.py", "                1 << message.code.class_ - 1\n", "                (1 << message.code.class_) - 1\n", "No-Response=2 also suppresses 4.xx and 5.xx")
+
+# seeds for the path-based generalisations: each one breaks the property through a spelling the clauses did not know
+# before (partial objects, nested helpers, tables, aliases), so that accepting those spellings is shown not to blind them
+R.seed("C09.a", F_PIPE, "            old_pr.add_response(msg, is_last=True)\n", "            respond = functools.partial(old_pr.add_response, is_last=False)\n            respond(msg)\n", "error response not final, through a partial object")
+R.seed("C09.a", F_PIPE, "            try:\n                msg = e.to_message()\n", "            def rendition(exc):\n                return exc.to_message()\n            msg = rendition(e)\n            try:\n", "the renderer runs in a nested helper that is called outside the try")
+R.seed("C09.b", F_PIPE, "            old_pr.add_response(Message(code=INTERNAL_SERVER_ERROR), is_last=True)\n", "            def bare(exc):\n                return Message(code=INTERNAL_SERVER_ERROR, payload=str(exc).encode())\n            old_pr.add_response(bare(e), is_last=True)\n", "exception text leaks through a nested helper")
+R.seed("C09.b", F_PIPE, "                msg = Message(code=INTERNAL_SERVER_ERROR)\n", "                msg = Message(code=INTERNAL_SERVER_ERROR)\n                msg.opt.max_age = 0\n", "fallback message modified through its options")
+R.seed("C09.c", F_PIPE, "        except Exception as e:\n            pipe.add_exception(e)\n", "        except Exception as e:\n            if isinstance(e, error.Error):\n                pipe.add_exception(e)\n", "only library errors are reported")
+R.seed("C09.c", F_PIPE, "        except Exception as e:\n            pipe.add_exception(e)\n", "        except Exception as e:\n            pipe.add_exception(RuntimeError())\n", "another exception than the caught one is reported")
+R.seed("C09.d", F_PROTO, "        return await self.serversite.render_to_pipe(pipe)", "        await self.serversite.render_to_pipe(pipe)\n        pipe.add_response(Message(code=NOT_FOUND), is_last=True)", "a second response after the site's")
+R.seed("C09.e", F_RES, "        if response.code is None:\n", "        if response.code is None or request.code == Code.GET:\n", "a GET handler's code is overwritten")
+R.seed("C09.e", F_RES, "            if request.code in (Code.GET, Code.FETCH):\n                response_default = Code.CONTENT\n            elif request.code == Code.DELETE:\n                response_default = Code.DELETED\n            else:\n                response_default = Code.CHANGED\n            response.code = response_default\n",
+       "            response.code = {Code.GET: Code.CONTENT, Code.DELETE: Code.DELETED}.get(request.code, Code.CHANGED)\n", "table-driven defaults that forgot FETCH")
+R.seed("C09.f", F_RES, "        except KeyError:\n            return True\n", "        except KeyError:\n            return False\n", "unknown path: no blockwise assembly")
+R.seed("C09.f", F_RES, "            return await child.render_to_pipe(request)\n", "            return await self.render_to_pipe(request)\n", "delegation to the wrong object")
+R.seed("C09.g", F_IF, "lambda: self.render(req)", "lambda: self.render_to_pipe(req)", "the cache is filled by something that is not the rendering")
+R.seed("C09.h", F_TM, "                m.request = request\n", "                m.request = request\n                m.token = b\"\"\n", "token overwritten after the stamp")
+R.seed("C09.i", F_PIPE, "            if not keep_calling:\n", "            if keep_calling:\n", "handlers that want to stay are removed, declining ones kept")
+R.seed("C09.i", F_PIPE, "        if not self._any_interest():\n            self._end()\n\n    def add_response", "        if self._any_interest():\n            self._end()\n\n    def add_response", "pipe ends while there is interest")
+R.seed("C09.i", F_PIPE, "        cbs = self._event_callbacks\n        self._event_callbacks = False\n        tombstone = self.Event(None, None, True)\n        [cb(tombstone) for (cb, _) in cbs]\n", "        cbs = self._event_callbacks\n        tombstone = self.Event(None, None, True)\n        [cb(tombstone) for (cb, _) in cbs]\n        self._event_callbacks = False\n", "pipe marked ended only after the tombstone went out")
+R.seed("C09.j", F_ERR, "self.message.encode(\"utf8\")", "self.message.encode(\"ascii\")", "diagnostic payload not UTF-8")
+R.seed("C09.m", "aiocoap/messagemanager.py", "                1 << message.code.class_ - 1\n", "                1 << message.code.class_\n", "mask shifted by one class")
